@@ -125,6 +125,23 @@ Proof.
   - rewrite Hab. destruct (g b); auto. rewrite IH. reflexivity.
 Qed.
 
+(* ================================================================== *)
+(* From here to the composition of the passes: [plen] gives the typed tuple arguments
+   (annotation Tuple[...]) with their length; they are user names and are never re-bound
+   (the guard), so they keep the value [rho0] gives them. *)
+Section Typed.
+  Variable plen : string -> option nat.
+  Notation prot := (M_A2A.prot plen).
+  Hypothesis prot_user : forall a, prot a = true -> user_name a = true.
+  Variable rho0 : env.
+  Hypothesis conf0 : forall a n, plen a = Some n -> exists vs, rho0 a = Some (VTup vs) /\ List.length vs = n.
+  Variable pbool : string -> bool.
+  Hypothesis confb0 : forall a, pbool a = true -> exists vs, rho0 a = Some (VTup vs) /\ forallb is_vbool vs = true.
+  Variable pint : string -> bool.
+  Hypothesis confi0 : forall a, pint a = true -> exists vs, rho0 a = Some (VTup vs) /\ forallb is_vint vs = true.
+  (* the protected names still have their initial value *)
+  Definition Inv (r : env) : Prop := forall a, prot a = true -> r a = rho0 a.
+
 (* ------------------------------------------------------------------ *)
 (* ConstantFolder on expressions                                       *)
 (* ------------------------------------------------------------------ *)
@@ -136,6 +153,28 @@ Proof. destruct v; simpl; intro H; inversion H; auto. Qed.
 
 Lemma valued_val c : valued c = true -> exists v, val_of_cst c = Some v.
 Proof. destruct c; simpl; intro H; try discriminate; eauto. Qed.
+
+Lemma typed_call_inv okn f args :
+  typed_call okn plen pbool pint f args = true ->
+  exists a n, args = [EName a] /\ okn a = true /\ plen a = Some n /\
+              (f = "len" \/ (f = "sum" /\ (2 <= n)%nat) \/
+               ((f = "all" \/ f = "any") /\ (1 <= n)%nat /\ pbool a = true) \/
+               ((f = "min" \/ f = "max") /\ (1 <= n)%nat /\ (pbool a = true \/ pint a = true))).
+Proof.
+  unfold typed_call. destruct args as [|[] []]; try discriminate. intro H.
+  apply andb_true_iff in H. destruct H as [Ox H]. destruct (plen x) as [n|] eqn:Px; try discriminate.
+  exists x, n. split; [reflexivity|]. split; [exact Ox|]. split; [exact Px|].
+  apply orb_true_iff in H. destruct H as [H|H];
+    [apply orb_true_iff in H; destruct H as [H|H]; [apply orb_true_iff in H; destruct H as [H|H]|]|].
+  - left. now apply String.eqb_eq.
+  - right. left. apply andb_true_iff in H. destruct H as [H1 H2]. split; [now apply String.eqb_eq|now apply Nat.leb_le].
+  - right. right. left. apply andb_true_iff in H. destruct H as [H H3]. apply andb_true_iff in H. destruct H as [H1 H2].
+    split; [|split; [now apply Nat.leb_le|exact H3]].
+    apply orb_true_iff in H1. destruct H1 as [H1|H1]; [left|right]; now apply String.eqb_eq.
+  - right. right. right. apply andb_true_iff in H. destruct H as [H H3]. apply andb_true_iff in H. destruct H as [H1 H2].
+    split; [|split; [now apply Nat.leb_le|now apply orb_true_iff]].
+    apply orb_true_iff in H1. destruct H1 as [H1|H1]; [left|right]; now apply String.eqb_eq.
+Qed.
 
 Section FoldExp.
   Variable ext : string -> list val -> option val.
@@ -199,7 +238,7 @@ Section FoldExp.
 
   (* a list of valued constants evaluates to the list of their values *)
   Lemma eval_const_list rho l :
-    forallb is_constant l = true -> forallb (gexp okn []) l = true ->
+    forallb is_constant l = true -> forallb (gexp okn plen pbool pint []) l = true ->
     exists vs, all_some (map (eval rho) l) = Some vs /\
                forall z x, index_list l z = Some x -> exists v, index_list vs z = Some v /\ eval rho x = Some v.
   Proof.
@@ -217,8 +256,8 @@ Section FoldExp.
   Qed.
 
   Lemma fold_exp_sound lv e : forall e',
-    gexp okn lv e = true -> fold_exp e = Ok e' ->
-    (forall rho, eval rho e' = eval rho e) /\ gexp okn lv e' = true.
+    gexp okn plen pbool pint lv e = true -> fold_exp e = Ok e' ->
+    (forall rho, eval rho e' = eval rho e) /\ gexp okn plen pbool pint lv e' = true.
   Proof.
     induction e as [x|c|e IHe|op l H0|op e1 e2 IHe1 IHe2|op e IHe|op e1 e2 IHe1 IHe2|e1 e2 e3 IHe1 IHe2 IHe3|l H0|l H0|e1 e2 IHe1 IHe2|f args H0]
       using exp_ind2; intros e' G H; cbn [gexp fold_exp] in G, H.
@@ -227,7 +266,7 @@ Section FoldExp.
     - discriminate.
     - (* BoolOp *)
       inv_bind H. inversion H; subst. apply mapM_ok in Ha.
-      assert (K : Forall2 (fun x y => (forall rho, eval rho y = eval rho x) /\ gexp okn lv y = true) l a).
+      assert (K : Forall2 (fun x y => (forall rho, eval rho y = eval rho x) /\ gexp okn plen pbool pint lv y = true) l a).
       { revert G H0. clear H. induction Ha; intros G F; constructor.
         - simpl in G. apply andb_true_iff in G. destruct G. inversion F; subst. auto.
         - simpl in G. apply andb_true_iff in G. destruct G. inversion F; subst. auto. }
@@ -290,7 +329,7 @@ Section FoldExp.
         * simpl. now rewrite G1, G2, G3.
     - (* Tuple *)
       inv_bind H. inversion H; subst. apply mapM_ok in Ha.
-      assert (K : Forall2 (fun x y => (forall rho, eval rho y = eval rho x) /\ gexp okn lv y = true) l a).
+      assert (K : Forall2 (fun x y => (forall rho, eval rho y = eval rho x) /\ gexp okn plen pbool pint lv y = true) l a).
       { revert G H0. clear H. induction Ha; intros G F; constructor.
         - simpl in G. apply andb_true_iff in G. destruct G. inversion F; subst. auto.
         - simpl in G. apply andb_true_iff in G. destruct G. inversion F; subst. auto. }
@@ -300,7 +339,7 @@ Section FoldExp.
       + simpl. clear - K. induction K; simpl; auto. destruct H as [_ ->]. auto.
     - (* List *)
       inv_bind H. inversion H; subst. apply mapM_ok in Ha.
-      assert (K : Forall2 (fun x y => (forall rho, eval rho y = eval rho x) /\ gexp okn lv y = true) l a).
+      assert (K : Forall2 (fun x y => (forall rho, eval rho y = eval rho x) /\ gexp okn plen pbool pint lv y = true) l a).
       { revert G H0. clear H. induction Ha; intros G F; constructor.
         - simpl in G. apply andb_true_iff in G. destruct G. inversion F; subst. auto.
         - simpl in G. apply andb_true_iff in G. destruct G. inversion F; subst. auto. }
@@ -312,14 +351,14 @@ Section FoldExp.
       apply andb_true_iff in G; destruct G as [Gv Gs].
       inv_bind H. inv_bind H.
       destruct (IHe1 _ Gv Ha) as (E1 & G1).
-      assert (Gs' : gexp okn lv e2 = true).
+      assert (Gs' : gexp okn plen pbool pint lv e2 = true).
       { destruct e2; try discriminate; simpl; auto. apply andb_true_iff in Gs. tauto. }
       destruct (IHe2 _ Gs' Ha0) as (E2 & G2).
       assert (Sa0 : a0 = e2).
       { destruct e2; try discriminate; simpl in Ha0; inversion Ha0; auto. }
       subst a0.
       assert (Keep : (forall rho, eval rho (ESubscript a e2) = eval rho (ESubscript e1 e2)) /\
-                     gexp okn lv (ESubscript a e2) = true).
+                     gexp okn plen pbool pint lv (ESubscript a e2) = true).
       { split. - intro rho. simpl. now rewrite E1. - simpl. now rewrite G1, Gs. }
       destruct (as_list a) as [elts|] eqn:La; [|inversion H; subst; exact Keep].
       destruct (is_constant e2 && forallb is_constant elts) eqn:C; [|inversion H; subst; exact Keep].
@@ -331,7 +370,7 @@ Section FoldExp.
       destruct (as_int i) as [z|] eqn:Zi; try discriminate.
       destruct (index_list elts z) as [x|] eqn:Ix; inversion H; subst; [|exact Keep].
       simpl in G1.
-      assert (G1' : forallb (gexp okn []) elts = true).
+      assert (G1' : forallb (gexp okn plen pbool pint []) elts = true).
       { clear - G1 Ce. induction elts; simpl in *; auto.
         apply andb_true_iff in G1; destruct G1. apply andb_true_iff in Ce; destruct Ce.
         rewrite IHelts by auto. destruct a; simpl in *; try discriminate. now rewrite H. }
@@ -341,10 +380,16 @@ Section FoldExp.
         unfold subscript_val. rewrite Zi. destruct (Hidx _ _ Ix) as (v & Hv & Hx). now rewrite Hv, Hx.
       + apply index_list_in in Ix. rewrite forallb_forall in G1. auto.
     - (* Call *)
+      apply orb_true_iff in G. destruct G as [G|Gt].
+      2:{ (* len / sum of a typed argument: nothing is folded *)
+          destruct (typed_call_inv _ _ _ Gt) as (y & n & -> & Oy & Py & Hf).
+          assert (E : e' = ECall f [EName y]).
+          { destruct Hf as [->|[[-> _]|[[[->| ->] _]|[[->| ->] _]]]]; vm_compute in H; inversion H; reflexivity. }
+          subst e'. split; auto. cbn [gexp]. rewrite Gt. apply orb_true_r. }
       apply andb_true_iff in G; destruct G as [Gf Ga].
       inv_bind H. apply negb_true_iff in Gf. rewrite (special_not_builtin _ Gf) in H. inversion H; subst.
       apply mapM_ok in Ha.
-      assert (K : Forall2 (fun x y => (forall rho, eval rho y = eval rho x) /\ gexp okn lv y = true) args a).
+      assert (K : Forall2 (fun x y => (forall rho, eval rho y = eval rho x) /\ gexp okn plen pbool pint lv y = true) args a).
       { revert Ga H0. clear H. induction Ha; intros G F; constructor.
         - simpl in G. apply andb_true_iff in G. destruct G. inversion F; subst. auto.
         - simpl in G. apply andb_true_iff in G. destruct G. inversion F; subst. auto. }
@@ -352,7 +397,7 @@ Section FoldExp.
       + intro rho. simpl.
         replace (all_some (map (eval rho) a)) with (all_some (map (eval rho) args)); auto.
         apply all_some_map_ext. clear - K. induction K; constructor; auto. destruct H. auto.
-      + cbn [gexp]. rewrite Gf. simpl. clear - K. induction K; simpl; auto. destruct H as [_ ->]. auto.
+      + cbn [gexp]. rewrite Gf. apply orb_true_iff. left. simpl. clear - K. induction K; simpl; auto. destruct H as [_ ->]. auto.
   Qed.
 End FoldExp.
 
@@ -441,17 +486,19 @@ End Sem.
 (* ------------------------------------------------------------------ *)
 (* guards: basic facts                                                 *)
 (* ------------------------------------------------------------------ *)
-Lemma gexp_not_call okn lv e f :
-  gexp okn lv e = true -> existsb (String.eqb f) special_calls = true -> is_call f e = None.
+Lemma gexp_not_call okn lv e (f : string) :
+  gexp okn plen pbool pint lv e = true -> f = "print" -> is_call f e = None.
 Proof.
-  destruct e; simpl; auto. intros G S. apply andb_true_iff in G; destruct G as [G _].
-  destruct (String.eqb f0 f) eqn:E; auto. apply String.eqb_eq in E. subst.
-  apply negb_true_iff in G. unfold special_calls in *. congruence.
+  destruct e; simpl; auto. intros G ->.
+  destruct (String.eqb f0 "print") eqn:E; auto. apply String.eqb_eq in E. subst.
+  apply orb_true_iff in G. destruct G as [G|G].
+  - apply andb_true_iff in G; destruct G as [G _]. discriminate.
+  - destruct (typed_call_inv _ _ _ G) as (y & n & _ & _ & _ & [Hf|[[Hf _]|[[[Hf|Hf] _]|[[Hf|Hf] _]]]]); discriminate.
 Qed.
 
-Lemma const_iter_gexp okn lv it : const_iter it = true -> gexp okn lv it = true.
+Lemma const_iter_gexp okn lv it : const_iter it = true -> gexp okn plen pbool pint lv it = true.
 Proof.
-  assert (K : forall l, forallb valued_const l = true -> forallb (gexp okn lv) l = true).
+  assert (K : forall l, forallb valued_const l = true -> forallb (gexp okn plen pbool pint lv) l = true).
   { induction l; simpl; auto. intro H. apply andb_true_iff in H; destruct H as [H1 H2].
     rewrite IHl by auto. destruct a; simpl in *; try discriminate. now rewrite H1. }
   destruct it; simpl; try discriminate; auto.
@@ -466,24 +513,11 @@ Proof.
   rewrite (IHl H2). destruct a; simpl in *; try discriminate. reflexivity.
 Qed.
 
-Lemma fold_names okn plen l : forallb (gname okn plen) l = true -> mapM fold_exp l = Ok l.
+Lemma fold_names okn l : forallb (gname okn plen) l = true -> mapM fold_exp l = Ok l.
 Proof.
   induction l; simpl; auto. intro H. apply andb_true_iff in H; destruct H as [H1 H2].
   rewrite (IHl H2). destruct a; simpl in *; try discriminate. reflexivity.
 Qed.
-
-(* ================================================================== *)
-(* From here to the composition of the passes: [plen] gives the typed tuple arguments
-   (annotation Tuple[...]) with their length; they are user names and are never re-bound
-   (the guard), so they keep the value [rho0] gives them. *)
-Section Typed.
-  Variable plen : string -> option nat.
-  Notation prot := (M_A2A.prot plen).
-  Hypothesis prot_user : forall a, prot a = true -> user_name a = true.
-  Variable rho0 : env.
-  Hypothesis conf0 : forall a n, plen a = Some n -> exists vs, rho0 a = Some (VTup vs) /\ List.length vs = n.
-  (* the protected names still have their initial value *)
-  Definition Inv (r : env) : Prop := forall a, prot a = true -> r a = rho0 a.
 
 (* ------------------------------------------------------------------ *)
 (* ConstantFolder on statements                                        *)
@@ -497,12 +531,12 @@ Section FoldStmt.
   Notation iter_vals := (iter_vals ext).
 
   Definition fold_stmt_spec (s : stmt) : Prop :=
-    forall lv l, gstmt okn plen lv s = true -> fold_stmt s = Ok l ->
-                 (forall rho, exec_list l rho = exec s rho) /\ forallb (gstmt okn plen lv) l = true.
+    forall lv l, gstmt okn plen pbool pint lv s = true -> fold_stmt s = Ok l ->
+                 (forall rho, exec_list l rho = exec s rho) /\ forallb (gstmt okn plen pbool pint lv) l = true.
 
   Lemma fold_flat_sound b : Forall fold_stmt_spec b ->
-    forall lv b', forallb (gstmt okn plen lv) b = true -> flat_mapM fold_stmt b = Ok b' ->
-    (forall rho, exec_list b' rho = exec_list b rho) /\ forallb (gstmt okn plen lv) b' = true.
+    forall lv b', forallb (gstmt okn plen pbool pint lv) b = true -> flat_mapM fold_stmt b = Ok b' ->
+    (forall rho, exec_list b' rho = exec_list b rho) /\ forallb (gstmt okn plen pbool pint lv) b' = true.
   Proof.
     induction 1 as [|s r Hs Hr IH]; intros lv b' G H; simpl in H.
     - inversion H; subst. auto.
@@ -516,9 +550,9 @@ Section FoldStmt.
   Qed.
 
   Lemma fold_args_sound lv args args' :
-    forallb (gexp okn lv) args = true -> mapM fold_exp args = Ok args' ->
+    forallb (gexp okn plen pbool pint lv) args = true -> mapM fold_exp args = Ok args' ->
     (forall rho, all_some (map (eval rho) args') = all_some (map (eval rho) args)) /\
-    forallb (gexp okn lv) args' = true.
+    forallb (gexp okn plen pbool pint lv) args' = true.
   Proof.
     revert args'; induction args as [|a r IH]; intros args' G H; simpl in H.
     - inversion H; subst; auto.
@@ -544,7 +578,7 @@ Section FoldStmt.
         * simpl. now rewrite Gx, G'.
       + apply andb_true_iff in G; destruct G as [G Gl]. apply andb_true_iff in G; destruct G as [Gn Ge].
         destruct (fold_exp_sound ext okn lv _ _ Ge Ha0) as (E & G').
-        simpl in Ha. rewrite (fold_names _ _ _ Gn) in Ha. simpl in Ha. inversion Ha; subst. split.
+        simpl in Ha. rewrite (fold_names _ _ Gn) in Ha. simpl in Ha. inversion Ha; subst. split.
         * intro rho. rewrite exec_list_single. simpl. now rewrite E.
         * simpl. rewrite Gn, G'. simpl.
           destruct e; simpl in Gl; try discriminate; simpl in Ha0.
@@ -581,7 +615,7 @@ Section FoldStmt.
       destruct (fold_flat_sound _ Hb _ _ Gb Ha0) as (Eb & Gb').
       destruct (fold_flat_sound _ Hfo _ _ Go Ha1) as (Eo & Go').
       assert (K : (forall rho, iter_vals rho a = iter_vals rho it) /\
-                  giter okn plen lv a = true /\ name_iter plen a = name_iter plen it).
+                  giter okn plen pbool pint lv a = true /\ name_iter plen a = name_iter plen it).
       { unfold giter in *. destruct (is_call "range" it) as [args|] eqn:Ci.
         - apply is_call_some in Ci. subst it. cbn [fold_exp] in Ha. inv_bind Ha.
           change (existsb (String.eqb "range") builtin_funcs) with false in Ha. inversion Ha; subst.
@@ -617,8 +651,8 @@ Section FoldStmt.
   Qed.
 
   Lemma fold_list_sound lv b b' :
-    forallb (gstmt okn plen lv) b = true -> fold_list b = Ok b' ->
-    (forall rho, exec_list b' rho = exec_list b rho) /\ forallb (gstmt okn plen lv) b' = true.
+    forallb (gstmt okn plen pbool pint lv) b = true -> fold_list b = Ok b' ->
+    (forall rho, exec_list b' rho = exec_list b rho) /\ forallb (gstmt okn plen pbool pint lv) b' = true.
   Proof.
     apply fold_flat_sound. apply Forall_forall. intros s _. apply fold_stmt_sound.
   Qed.
@@ -691,7 +725,7 @@ Section Agree.
   Notation iter_vals := (iter_vals ext).
 
   Lemma eval_agree okn lv e rho rho' :
-    gexp okn lv e = true -> Ragree okn rho rho' -> eval rho e = eval rho' e.
+    gexp okn plen pbool pint lv e = true -> Ragree okn rho rho' -> eval rho e = eval rho' e.
   Proof.
     intros G R. revert G.
     induction e as [x|c|e IHe|op l H0|op e1 e2 IHe1 IHe2|op e IHe|op e1 e2 IHe1 IHe2|e1 e2 e3 IHe1 IHe2 IHe3|l H0|l H0|e1 e2 IHe1 IHe2|f args H0]
@@ -714,14 +748,16 @@ Section Agree.
       assert (Es : eval rho e2 = eval rho' e2).
       { destruct e2; try discriminate; auto. apply andb_true_iff in Gs. destruct Gs. simpl. auto. }
       now rewrite Es.
-    - apply andb_true_iff in G; destruct G as [_ Ga].
+    - apply orb_true_iff in G. destruct G as [G|Gt].
+      2:{ destruct (typed_call_inv _ _ _ Gt) as (y & n & -> & Oy & _ & _). simpl. now rewrite (R y Oy). }
+      apply andb_true_iff in G; destruct G as [_ Ga].
       replace (all_some (map (eval rho') args)) with (all_some (map (eval rho) args)); auto.
       apply all_some_map_ext.
       induction H0; constructor; simpl in Ga; apply andb_true_iff in Ga; destruct Ga; auto.
   Qed.
 
   Lemma args_agree okn lv args rho rho' :
-    forallb (gexp okn lv) args = true -> Ragree okn rho rho' ->
+    forallb (gexp okn plen pbool pint lv) args = true -> Ragree okn rho rho' ->
     all_some (map (eval rho) args) = all_some (map (eval rho') args).
   Proof.
     intros G R. apply all_some_map_ext. induction args; constructor; simpl in G;
@@ -730,7 +766,7 @@ Section Agree.
 
   (* the iterator of a guarded loop *)
   Lemma iter_agree okn lv it rho rho' :
-    giter okn plen lv it = true ->
+    giter okn plen pbool pint lv it = true ->
     Ragree okn rho rho' -> iter_vals rho it = iter_vals rho' it.
   Proof.
     unfold giter. intros G R. destruct (is_call "range" it) as [args|] eqn:Ci.
@@ -744,7 +780,7 @@ End Agree.
 
 (* the guard is monotone in the set of allowed names *)
 Lemma gexp_mono (P Q : string -> bool) lv e :
-  (forall x, P x = true -> Q x = true) -> gexp P lv e = true -> gexp Q lv e = true.
+  (forall x, P x = true -> Q x = true) -> gexp P plen pbool pint lv e = true -> gexp Q plen pbool pint lv e = true.
 Proof.
   intro M.
   induction e as [x|c|e IHe|op l H0|op e1 e2 IHe1 IHe2|op e IHe|op e1 e2 IHe1 IHe2|e1 e2 e3 IHe1 IHe2 IHe3|l H0|l H0|e1 e2 IHe1 IHe2|f args H0]
@@ -759,12 +795,15 @@ Proof.
   - induction H0; simpl in *; auto. apply andb_true_iff in G; destruct G. rewrite H, IHForall; auto.
   - apply andb_true_iff in G; destruct G as [Gv Gs]. rewrite IHe1 by auto. simpl.
     destruct e2; auto. apply andb_true_iff in Gs; destruct Gs as [Gx Gl]. now rewrite (M _ Gx), Gl.
-  - apply andb_true_iff in G; destruct G as [Gf Ga]. rewrite Gf. simpl.
-    induction H0; simpl in *; auto. apply andb_true_iff in Ga; destruct Ga. rewrite H, IHForall; auto.
+  - apply orb_true_iff in G. apply orb_true_iff. destruct G as [G|Gt].
+    + left. apply andb_true_iff in G; destruct G as [Gf Ga]. rewrite Gf. simpl.
+      induction H0; simpl in *; auto. apply andb_true_iff in Ga; destruct Ga. rewrite H, IHForall; auto.
+    + right. destruct (typed_call_inv _ _ _ Gt) as (y & n & -> & Oy & Py & _).
+      unfold typed_call in *. rewrite Py in *. rewrite Oy in Gt. rewrite (M _ Oy). exact Gt.
 Qed.
 
 Lemma gargs_mono (P Q : string -> bool) lv l :
-  (forall x, P x = true -> Q x = true) -> forallb (gexp P lv) l = true -> forallb (gexp Q lv) l = true.
+  (forall x, P x = true -> Q x = true) -> forallb (gexp P plen pbool pint lv) l = true -> forallb (gexp Q plen pbool pint lv) l = true.
 Proof.
   intro M. induction l; simpl; auto. intro G. apply andb_true_iff in G; destruct G.
   rewrite (gexp_mono P Q lv a M), IHl; auto.
@@ -777,7 +816,7 @@ Proof.
 Qed.
 
 Lemma giter_mono (P Q : string -> bool) lv it :
-  (forall x, P x = true -> Q x = true) -> giter P plen lv it = true -> giter Q plen lv it = true.
+  (forall x, P x = true -> Q x = true) -> giter P plen pbool pint lv it = true -> giter Q plen pbool pint lv it = true.
 Proof.
   unfold giter. intros M H. destruct (is_call "range" it).
   - apply (gargs_mono P Q); auto.
@@ -786,7 +825,7 @@ Proof.
 Qed.
 
 Lemma gstmt_mono (P Q : string -> bool) s :
-  (forall x, P x = true -> Q x = true) -> forall lv, gstmt P plen lv s = true -> gstmt Q plen lv s = true.
+  (forall x, P x = true -> Q x = true) -> forall lv, gstmt P plen pbool pint lv s = true -> gstmt Q plen pbool pint lv s = true.
 Proof.
   intro M.
   induction s as [t e|x op e|c b o Hb Ho|x it b fo Hb Hfo|e|e] using stmt_ind2; intros lv G; cbn [gstmt] in *.
@@ -801,13 +840,13 @@ Proof.
     now rewrite (okt_mono P Q x M Gx), Gop, (gexp_mono P Q lv e M Ge).
   - apply andb_true_iff in G; destruct G as [G Go]. apply andb_true_iff in G; destruct G as [Gc Gb].
     rewrite (gexp_mono P Q lv c M Gc). simpl.
-    assert (forallb (gstmt Q plen lv) b = true) as ->.
+    assert (forallb (gstmt Q plen pbool pint lv) b = true) as ->.
     { clear - Hb Gb. induction Hb; simpl in *; auto. apply andb_true_iff in Gb; destruct Gb. rewrite H, IHHb; auto. }
     clear - Ho Go. induction Ho; simpl in *; auto. apply andb_true_iff in Go; destruct Go. rewrite H, IHHo; auto.
   - apply andb_true_iff in G; destruct G as [G Go]. apply andb_true_iff in G; destruct G as [G Gb].
     apply andb_true_iff in G; destruct G as [G Gn]. apply andb_true_iff in G; destruct G as [Gx Gi].
     rewrite (okt_mono P Q x M Gx), (giter_mono P Q lv it M Gi), Gn. simpl.
-    assert (forallb (gstmt Q plen (body_lv plen x lv it)) b = true) as ->.
+    assert (forallb (gstmt Q plen pbool pint (body_lv plen x lv it)) b = true) as ->.
     { clear - Hb Gb. induction Hb; simpl in *; auto. apply andb_true_iff in Gb; destruct Gb. rewrite H, IHHb; auto. }
     clear - Hfo Go. induction Hfo; simpl in *; auto.
     apply andb_true_iff in Go; destruct Go. rewrite H, IHHfo; auto.
@@ -816,7 +855,7 @@ Proof.
 Qed.
 
 Lemma glist_mono (P Q : string -> bool) lv l :
-  (forall x, P x = true -> Q x = true) -> forallb (gstmt P plen lv) l = true -> forallb (gstmt Q plen lv) l = true.
+  (forall x, P x = true -> Q x = true) -> forallb (gstmt P plen pbool pint lv) l = true -> forallb (gstmt Q plen pbool pint lv) l = true.
 Proof.
   intro M. induction l; simpl; auto. intro G. apply andb_true_iff in G; destruct G.
   rewrite (gstmt_mono P Q a M lv), IHl; auto.
@@ -828,9 +867,10 @@ Proof. reflexivity. Qed.
 
 Lemma user_visible x : user_name x = true -> visible x = true.
 Proof.
-  unfold user_name, visible, dunder, is_iftarg, iftarg_prefix, is_forit, forit_prefix.
-  destruct x as [|a s]; [reflexivity|].
-  rewrite !prefix_cons. destruct (ascii_dec "_" a); cbn [negb andb]; auto. destruct s; simpl; discriminate.
+  unfold user_name, visible, reserved, is_iftarg, iftarg_prefix, is_forit, forit_prefix.
+  intro H. apply andb_true_iff in H. destruct H as [D R]. rewrite D. simpl.
+  apply negb_true_iff in R. apply orb_false_iff in R. destruct R as [R F].
+  apply orb_false_iff in R. destruct R as [_ I]. now rewrite I, F.
 Qed.
 
 (* ------------------------------------------------------------------ *)
@@ -851,20 +891,20 @@ Section SimStmt.
   Proof. unfold okt. intro H. apply andb_true_iff in H. destruct H as [A B]. apply negb_true_iff in B. auto. Qed.
 
   Lemma bsim_assign P lv x e e' :
-    prot x = false -> gexp P lv e = true -> (forall rho, eval rho e' = eval rho e) ->
+    prot x = false -> gexp P plen pbool pint lv e = true -> (forall rho, Inv rho -> eval rho e' = eval rho e) ->
     bsim P (exec (SAssign (TName x) e)) (exec (SAssign (TName x) e')).
   Proof.
-    intros Px G E rho rho' o' J R H. simpl in *. rewrite E in H.
+    intros Px G E rho rho' o' J R H. simpl in *. rewrite (E _ J) in H.
     rewrite (eval_agree ext P lv e rho rho' G R).
     destruct (eval rho' e) as [v|]; try discriminate. inversion H; subst.
     exists (upd rho x v, None). split; auto. split; [split|]; simpl; auto using Ragree_upd, Inv_upd.
   Qed.
 
   Lemma bsim_aug P lv x op e e' :
-    P x = true -> prot x = false -> gexp P lv e = true -> (forall rho, eval rho e' = eval rho e) ->
+    P x = true -> prot x = false -> gexp P plen pbool pint lv e = true -> (forall rho, Inv rho -> eval rho e' = eval rho e) ->
     bsim P (exec (SAugAssign x op e)) (exec (SAugAssign x op e')).
   Proof.
-    intros Px Qx G E rho rho' o' J R H. simpl in *. rewrite E in H.
+    intros Px Qx G E rho rho' o' J R H. simpl in *. rewrite (E _ J) in H.
     rewrite (eval_agree ext P lv e rho rho' G R), (R x Px).
     destruct (rho' x) as [a|]; try discriminate. destruct (eval rho' e) as [v|]; try discriminate.
     destruct (binop_val op a v) as [w|]; try discriminate. simpl in *. inversion H; subst.
@@ -872,29 +912,29 @@ Section SimStmt.
   Qed.
 
   Lemma bsim_return P lv e e' :
-    gexp P lv e = true -> (forall rho, eval rho e' = eval rho e) ->
+    gexp P plen pbool pint lv e = true -> (forall rho, Inv rho -> eval rho e' = eval rho e) ->
     bsim P (exec (SReturn e)) (exec (SReturn e')).
   Proof.
-    intros G E rho rho' o' J R H. simpl in *. rewrite E in H.
+    intros G E rho rho' o' J R H. simpl in *. rewrite (E _ J) in H.
     rewrite (eval_agree ext P lv e rho rho' G R).
     destruct (eval rho' e) as [v|]; try discriminate. inversion H; subst.
     exists (rho, Some v). split; auto. split; [split|]; simpl; auto.
   Qed.
 
   Lemma bsim_expr P lv e e' :
-    gexp P lv e = true -> gexp P lv e' = true -> (forall rho, eval rho e' = eval rho e) ->
+    gexp P plen pbool pint lv e = true -> gexp P plen pbool pint lv e' = true -> (forall rho, Inv rho -> eval rho e' = eval rho e) ->
     bsim P (exec (SExpr (Some e))) (exec (SExpr (Some e'))).
   Proof.
     intros G G' E rho rho' o' J R H. simpl in *.
     rewrite (gexp_not_call _ _ _ "print" G') in H by reflexivity.
-    rewrite (gexp_not_call _ _ _ "print" G) by reflexivity. rewrite E in H.
+    rewrite (gexp_not_call _ _ _ "print" G) by reflexivity. rewrite (E _ J) in H.
     rewrite (eval_agree ext P lv e rho rho' G R).
     destruct (eval rho' e) as [v|]; try discriminate. inversion H; subst.
     exists (rho, None). split; auto. split; [split|]; simpl; auto.
   Qed.
 
   Lemma bsim_if P lv c c' fb fo gb go :
-    gexp P lv c = true -> (forall rho, eval rho c' = eval rho c) ->
+    gexp P plen pbool pint lv c = true -> (forall rho, Inv rho -> eval rho c' = eval rho c) ->
     bsim P fb gb -> bsim P fo go ->
     bsim P (fun rho => match eval rho c with
                        | Some v => if truthy v then fb rho else fo rho
@@ -903,13 +943,13 @@ Section SimStmt.
                        | Some v => if truthy v then gb rho else go rho
                        | None => None end).
   Proof.
-    intros G E Bb Bo rho rho' o' J R H. rewrite E in H.
+    intros G E Bb Bo rho rho' o' J R H. rewrite (E _ J) in H.
     rewrite (eval_agree ext P lv c rho rho' G R).
     destruct (eval rho' c) as [v|]; try discriminate. destruct (truthy v); eauto.
   Qed.
 
   Lemma bsim_for P lv x it fb gb fo go :
-    prot x = false -> giter P plen lv it = true ->
+    prot x = false -> giter P plen pbool pint lv it = true ->
     bsim P fb gb -> bsim P fo go ->
     bsim P (fun rho => match iter_vals rho it with Some vs => seq (loop_with fb x vs) fo rho | None => None end)
            (fun rho => match iter_vals rho it with Some vs => seq (loop_with gb x vs) go rho | None => None end).
@@ -997,7 +1037,7 @@ Section Multi.
   Lemma singles_guard lv src names k :
     visible src = true ->
     forallb (okt user_name plen) names = true ->
-    forallb (gstmt visible plen lv) (singles (EName src) names k) = true.
+    forallb (gstmt visible plen pbool pint lv) (singles (EName src) names k) = true.
   Proof.
     intro Vs. revert k; induction names as [|x r IH]; intros k U; simpl; auto.
     simpl in U. apply andb_true_iff in U; destruct U as [Ux Ur].
@@ -1018,12 +1058,12 @@ Section Multi.
   Qed.
 
   Definition multi_spec (s : stmt) : Prop :=
-    forall lv l, gstmt user_name plen lv s = true -> multi_stmt s = Ok l ->
-                 forallb (gstmt visible plen lv) l = true /\ bsim user_name (exec s) (exec_list l).
+    forall lv l, gstmt user_name plen pbool pint lv s = true -> multi_stmt s = Ok l ->
+                 forallb (gstmt visible plen pbool pint lv) l = true /\ bsim user_name (exec s) (exec_list l).
 
   Lemma multi_flat_sound b : Forall multi_spec b ->
-    forall lv b', forallb (gstmt user_name plen lv) b = true -> flat_mapM multi_stmt b = Ok b' ->
-    forallb (gstmt visible plen lv) b' = true /\ bsim user_name (exec_list b) (exec_list b').
+    forall lv b', forallb (gstmt user_name plen pbool pint lv) b = true -> flat_mapM multi_stmt b = Ok b' ->
+    forallb (gstmt visible plen pbool pint lv) b' = true /\ bsim user_name (exec_list b) (exec_list b').
   Proof.
     induction 1 as [|s r Hs Hr IH]; intros lv b' G H; simpl in H.
     - inversion H; subst. split; auto. apply bsim_nil.
@@ -1118,7 +1158,7 @@ Section Multi.
       split.
       + simpl. now rewrite (gexp_mono user_name visible lv c user_visible Gc), Gb', Go'.
       + apply bsim_single.
-        eapply bsim_ext; [| |apply (bsim_if ext user_name lv c c _ _ _ _ Gc (fun _ => eq_refl) Bb Bo)];
+        eapply bsim_ext; [| |apply (bsim_if ext user_name lv c c _ _ _ _ Gc (fun _ _ => eq_refl) Bb Bo)];
           intro rho; now rewrite exec_if.
     - apply andb_true_iff in G; destruct G as [G Go]. apply andb_true_iff in G; destruct G as [G Gb].
       apply andb_true_iff in G; destruct G as [G Gn]. apply andb_true_iff in G; destruct G as [Gx Gi].
@@ -1143,8 +1183,8 @@ Section Multi.
   Qed.
 
   Lemma multi_list_sound lv b b' :
-    forallb (gstmt user_name plen lv) b = true -> multi_list b = Ok b' ->
-    forallb (gstmt visible plen lv) b' = true /\ bsim user_name (exec_list b) (exec_list b').
+    forallb (gstmt user_name plen pbool pint lv) b = true -> multi_list b = Ok b' ->
+    forallb (gstmt visible plen pbool pint lv) b' = true /\ bsim user_name (exec_list b) (exec_list b').
   Proof.
     apply multi_flat_sound. apply Forall_forall. intros s _. apply multi_stmt_sound.
   Qed.
@@ -1216,68 +1256,386 @@ Proof.
   repeat (apply orb_false_iff in H; destruct H as [? H]). repeat split; assumption.
 Qed.
 
+(* the types the rewriter's environment records for the typed tuple arguments are their
+   annotations, whatever else has been bound since *)
+Definition st_ok (st : rstate) : Prop :=
+  forall a n, plen a = Some n ->
+              exists l, assoc (tys st) a = Some (TyNode (ESubscript (EName "Tuple") (ETuple l))) /\
+                        List.length l = n.
+
+Lemma st_ok_tys st st' : tys st' = tys st -> st_ok st -> st_ok st'.
+Proof. intros E S a n Pa. rewrite E. auto. Qed.
+
+Lemma st_ok_cons st st' x t : prot x = false -> tys st' = (x, t) :: tys st -> st_ok st -> st_ok st'.
+Proof.
+  intros Px E S a n Pa. rewrite E. simpl. destruct (String.eqb x a) eqn:Exa; auto.
+  apply String.eqb_eq in Exa. subst. unfold M_A2A.prot in Px. rewrite Pa in Px. discriminate.
+Qed.
+
+Lemma st_ok_set_type st x t : prot x = false -> st_ok st -> st_ok (set_type st x t).
+Proof. intros Px. apply (st_ok_cons st _ x t Px). reflexivity. Qed.
+
+Lemma st_ok_set_constant st x v : prot x = false -> st_ok st -> st_ok (set_constant st x v).
+Proof.
+  intros Px S. unfold set_constant.
+  destruct (match v with EConst k => (CvRaw k, TyRaw) | EConstNode e => (CvNode e, TyNode e) | e => (CvNode e, TyNode e) end) as [c t].
+  destruct (has_key (tys st) x).
+  - apply (st_ok_tys st); auto.
+  - apply (st_ok_cons st _ x t Px); auto.
+Qed.
+
+
 Section RwExp.
   Variable ext : string -> list val -> option val.
   Notation eval := (eval ext).
 
-  Lemma rw_exp_sound st e : forall e',
-    gexp visible [] e = true -> rw_exp st e = Ok e' ->
-    (forall rho, eval rho e' = eval rho e) /\ gexp visible [] e' = true.
+  (* sum(a) of at least two elements is the right-nested sum of the elements *)
+  Lemma fold_left_add l : forall acc, fold_left Z.add l acc = (acc + fold_right Z.add 0 l)%Z.
+  Proof. induction l; intro acc; simpl; [lia|]. rewrite IHl. lia. Qed.
+
+  Lemma sum_chain_eval rho : forall es vs c,
+    Forall2 (fun e v => eval rho e = Some v) es vs -> (2 <= List.length es)%nat -> sum_chain es = Ok c ->
+    eval rho c = option_map (fun zs => VInt (fold_right Z.add 0%Z zs)) (all_some (map as_int vs)).
   Proof.
+    induction es as [|x r IH]; intros vs c F L H; [simpl in L; lia|].
+    destruct r as [|y r']; [simpl in L; lia|].
+    inversion F as [|? vx ? vs1 Hx F1]; subst. inversion F1 as [|? vy ? vs2 Hy F2]; subst.
+    destruct r' as [|z r''].
+    - inversion F2; subst. simpl in H. inversion H; subst. simpl. rewrite Hx, Hy.
+      unfold binop_val. destruct vx, vy; simpl; try reflexivity; repeat f_equal; lia.
+    - assert (H' : bind (sum_chain (y :: z :: r'')) (fun c' => Ok (EBinOp Add x c')) = Ok c) by exact H.
+      inv_bind H'. inversion H'; subst.
+      assert (L' : (2 <= List.length (y :: z :: r''))%nat) by (simpl; lia).
+      pose proof (IH _ _ F1 L' Ha) as E. simpl. rewrite Hx, E.
+      cbn [map all_some]. destruct (all_some (map as_int (vy :: vs2))) as [zs|] eqn:Az.
+      + cbn [map all_some] in Az. rewrite Az. simpl. destruct (as_int vx) as [zx|] eqn:Ax; simpl.
+        * unfold binop_val. rewrite Ax. simpl. destruct vx; reflexivity.
+        * unfold binop_val. rewrite Ax. destruct vx; simpl in *; try discriminate; reflexivity.
+      + cbn [map all_some] in Az. rewrite Az. simpl. destruct (as_int vx); reflexivity.
+  Qed.
+
+  Lemma sum_chain_gexp okn lv : forall es c,
+    forallb (gexp okn plen pbool pint lv) es = true -> sum_chain es = Ok c -> gexp okn plen pbool pint lv c = true.
+  Proof.
+    induction es as [|x r IH]; intros c G H; [discriminate|].
+    simpl in G. apply andb_true_iff in G; destruct G as [Gx Gr].
+    destruct r as [|y r']; [simpl in H; inversion H; subst; auto|].
+    assert (H' : bind (sum_chain (y :: r')) (fun c' => Ok (EBinOp Add x c')) = Ok c) by exact H.
+    inv_bind H'. inversion H'; subst. simpl. now rewrite Gx, (IH _ Gr Ha).
+  Qed.
+
+  Lemma access_vals a rho : forall done rest,
+    rho a = Some (VTup (done ++ rest)) ->
+    Forall2 (fun r v => eval rho r = Some v) (map (access1 a) (List.seq (List.length done) (List.length rest))) rest.
+  Proof.
+    intros done rest. revert done. induction rest as [|v rest IH]; intros done H; simpl; constructor.
+    - simpl. rewrite H. unfold subscript_val. simpl. apply index_list_mid.
+    - replace (S (List.length done)) with (List.length (done ++ [v])) by (rewrite app_length; simpl; lia).
+      apply IH. now rewrite <- app_assoc.
+  Qed.
+
+  (* all(a) / any(a) of booleans is the and / or of the elements *)
+  Lemma boolop_bools rho op : forall es vs,
+    Forall2 (fun e v => eval rho e = Some v) es vs -> forallb is_vbool vs = true -> es <> [] ->
+    boolop_with (eval rho) op es =
+    Some (VBool (match op with And => forallb truthy vs | Or => existsb truthy vs end)).
+  Proof.
+    induction 1 as [|x v r vs' Hx F IH]; intros B Ne; [congruence|].
+    simpl in B. apply andb_true_iff in B. destruct B as [Bv Bs]. destruct v as [b| |]; try discriminate.
+    destruct r as [|y r'].
+    - inversion F; subst. simpl. rewrite Hx. destruct op; simpl; [now rewrite andb_true_r|now rewrite orb_false_r].
+    - assert (E : boolop_with (eval rho) op (x :: y :: r') =
+                  match eval rho x with
+                  | Some v => if (match op with And => negb (truthy v) | Or => truthy v end) then Some v
+                              else boolop_with (eval rho) op (y :: r')
+                  | None => None end) by reflexivity.
+      rewrite E, Hx, IH by (auto; discriminate). destruct op, b; reflexivity.
+  Qed.
+
+  (* min(a) / max(a): the if-chain and the builtin both pick an extremum *)
+  Definition is_ext (is_max : bool) (zs : list Z) (m : Z) : Prop :=
+    List.In m zs /\ forall z, List.In z zs -> if is_max then (z <= m)%Z else (m <= z)%Z.
+  Definition better (is_max : bool) (zx zz : Z) : bool := if is_max then Z.ltb zz zx else Z.leb zx zz.
+
+  Lemma is_ext_unique (is_max : bool) zs m m' : is_ext is_max zs m -> is_ext is_max zs m' -> m = m'.
+  Proof.
+    intros [I1 H1] [I2 H2]. specialize (H1 _ I2). specialize (H2 _ I1). destruct is_max; lia.
+  Qed.
+
+  Lemma extreme_ext (is_max : bool) : forall l zl cur zc seen v,
+    as_int cur = Some zc -> all_some (map as_int l) = Some zl -> is_ext is_max seen zc ->
+    extreme is_max cur zc l = Some v ->
+    exists m, as_int v = Some m /\ is_ext is_max (seen ++ zl) m /\ (v = cur \/ List.In v l).
+  Proof.
+    induction l as [|x l IH]; intros zl cur zc seen v Hc Hl He H; simpl in *.
+    - inversion Hl; subst. inversion H; subst. exists zc. rewrite app_nil_r. auto.
+    - destruct (as_int x) as [zx|] eqn:Hx; try discriminate.
+      destruct (all_some (map as_int l)) as [zl'|] eqn:Hl'; try discriminate. simpl in Hl. inversion Hl; subst zl.
+      assert (A : seen ++ zx :: zl' = (seen ++ [zx]) ++ zl') by (now rewrite <- app_assoc).
+      destruct He as [I Hb].
+      destruct (if is_max then (zc <? zx)%Z else (zx <? zc)%Z) eqn:C.
+      + destruct (IH zl' x zx (seen ++ [zx]) v Hx eq_refl) as (m & Hm & Em & Iv); auto.
+        { split; [apply in_or_app; right; left; auto|].
+          intros z Iz. apply in_app_or in Iz. destruct Iz as [Iz|[<-|[]]].
+          - specialize (Hb _ Iz). destruct is_max; [apply Z.ltb_lt in C|apply Z.ltb_lt in C]; lia.
+          - destruct is_max; lia. }
+        exists m. rewrite A. split; auto. split; auto. destruct Iv as [->|Iv]; auto.
+      + destruct (IH zl' cur zc (seen ++ [zx]) v Hc eq_refl) as (m & Hm & Em & Iv); auto.
+        { split; [apply in_or_app; left; auto|].
+          intros z Iz. apply in_app_or in Iz. destruct Iz as [Iz|[<-|[]]]; [exact (Hb _ Iz)|].
+          destruct is_max; [apply Z.ltb_ge in C|apply Z.ltb_ge in C]; lia. }
+        exists m. rewrite A. split; auto. split; auto. destruct Iv as [->|Iv]; auto.
+  Qed.
+
+  Lemma forallb_false_ex {A} (f : A -> bool) l : forallb f l = false -> exists z, List.In z l /\ f z = false.
+  Proof.
+    induction l; simpl; try discriminate. intro H. apply andb_false_iff in H. destruct H as [H|H]; eauto.
+    destruct (IHl H) as (z & I & F). eauto.
+  Qed.
+
+  Lemma minmax_chain_ext rho (is_max : bool) : forall es vs zs c,
+    Forall2 (fun e v => eval rho e = Some v) es vs -> all_some (map as_int vs) = Some zs -> es <> [] ->
+    minmax_chain (if is_max then M_A2A.Gt else M_A2A.LtE) es = Ok c ->
+    exists v m, eval rho c = Some v /\ List.In v vs /\ as_int v = Some m /\ is_ext is_max zs m.
+  Proof.
+    intros es vs zs c F0. revert zs c. induction F0 as [|x vx r vs' Hx F IH]; intros zs c Hz Ne H; [congruence|].
+    simpl in Hz. destruct (as_int vx) as [zx|] eqn:Ax; try discriminate.
+    destruct (all_some (map as_int vs')) as [zr|] eqn:Ar; try discriminate. simpl in Hz. inversion Hz; subst zs.
+    destruct r as [|y r'].
+    - inversion F; subst. simpl in Ar. inversion Ar; subst. simpl in H. inversion H; subst.
+      exists vx, zx. split; auto. split; [left; auto|]. split; auto. split; [left; auto|].
+      intros z [<-|[]]. destruct is_max; lia.
+    - assert (H' : bind (minmax_chain (if is_max then M_A2A.Gt else M_A2A.LtE) (y :: r'))
+                        (fun yc => Ok (EIfExp (EBoolOp And (map (fun z => ECompare (if is_max then M_A2A.Gt else M_A2A.LtE) x z) (y :: r'))) x yc)) = Ok c)
+        by exact H.
+      inv_bind H'. inversion H'; subst c. clear H H'.
+      destruct (IH zr a eq_refl) as (v & m & Ev & Iv & Am & Em); [discriminate|auto|].
+      (* the test: x beats every other element *)
+      assert (T : eval rho (EBoolOp And (map (fun z => ECompare (if is_max then M_A2A.Gt else M_A2A.LtE) x z) (y :: r'))) =
+                  Some (VBool (forallb (better is_max zx) zr))).
+      { assert (Fc : Forall2 (fun e w => eval rho e = Some w)
+                             (map (fun z => ECompare (if is_max then M_A2A.Gt else M_A2A.LtE) x z) (y :: r'))
+                             (map (fun zz => VBool (better is_max zx zz)) zr)).
+        { clear - F Ar Hx Ax. revert zr Ar. induction F as [|e w l l' He Fl IHl]; intros zr Ar; simpl in *.
+          - inversion Ar; constructor.
+          - destruct (as_int w) as [zw|] eqn:Aw; try discriminate.
+            destruct (all_some (map as_int l')) as [zl|] eqn:Al; try discriminate. simpl in Ar. inversion Ar; subst.
+            simpl. constructor; auto. simpl. rewrite Hx, He. unfold cmp_val. destruct is_max; now rewrite Ax, Aw. }
+        cbn [M_A2A.eval]. rewrite (boolop_bools rho And _ _ Fc); [| |discriminate].
+        - f_equal. f_equal. clear. induction zr; simpl; auto. now rewrite IHzr.
+        - clear. induction zr; simpl; auto. }
+      change (ECompare (if is_max then M_A2A.Gt else LtE) x y
+              :: map (fun z : exp => ECompare (if is_max then M_A2A.Gt else LtE) x z) r')
+        with (map (fun z : exp => ECompare (if is_max then M_A2A.Gt else LtE) x z) (y :: r')).
+      assert (Eif : forall t b e, eval rho (EIfExp t b e) =
+                match eval rho t with Some v => if truthy v then eval rho b else eval rho e | None => None end)
+        by reflexivity.
+      rewrite Eif, T. cbn [truthy].
+      destruct (forallb (better is_max zx) zr) eqn:B.
+      + exists vx, zx. rewrite Hx. split; auto. split; [left; auto|]. split; auto. split; [left; auto|].
+        intros z [<-|Iz]; [destruct is_max; lia|].
+        rewrite forallb_forall in B. specialize (B _ Iz). unfold better in B.
+        destruct is_max; [apply Z.ltb_lt in B|apply Z.leb_le in B]; lia.
+      + exists v, m. split; auto. split; [right; auto|]. split; auto.
+        destruct Em as [Im Hm]. split; [right; auto|].
+        intros z [<-|Iz]; [|exact (Hm _ Iz)].
+        destruct (forallb_false_ex _ _ B) as (z0 & I0 & B0). specialize (Hm _ I0). unfold better in B0.
+        destruct is_max; [apply Z.ltb_ge in B0|apply Z.leb_gt in B0]; lia.
+  Qed.
+
+  Lemma extreme_some (is_max : bool) : forall l zl cur zc,
+    all_some (map as_int l) = Some zl -> exists v, extreme is_max cur zc l = Some v.
+  Proof.
+    induction l as [|x l IH]; intros zl cur zc H; simpl in *; eauto.
+    destruct (as_int x) as [zx|]; try discriminate.
+    destruct (all_some (map as_int l)) as [zl'|] eqn:E; try discriminate.
+    destruct (if is_max then (zc <? zx)%Z else (zx <? zc)%Z); eauto.
+  Qed.
+
+  Lemma kinds_as_int vs : (forallb is_vbool vs = true \/ forallb is_vint vs = true) ->
+    exists zs, all_some (map as_int vs) = Some zs.
+  Proof.
+    intro K. induction vs as [|v vs IH]; simpl; eauto.
+    assert (K' : forallb is_vbool vs = true \/ forallb is_vint vs = true).
+    { destruct K as [K|K]; simpl in K; apply andb_true_iff in K; destruct K; auto. }
+    destruct (IH K') as (zs & E). rewrite E.
+    destruct K as [K|K]; simpl in K; apply andb_true_iff in K; destruct K as [Kv _];
+      destruct v; try discriminate; simpl; eauto.
+  Qed.
+
+  Lemma minmax_chain_gexp okn lv op : forall es c,
+    forallb (gexp okn plen pbool pint lv) es = true -> minmax_chain op es = Ok c ->
+    gexp okn plen pbool pint lv c = true.
+  Proof.
+    induction es as [|x r IH]; intros c G H; [discriminate|].
+    simpl in G. apply andb_true_iff in G; destruct G as [Gx Gr].
+    destruct r as [|y r']; [simpl in H; inversion H; subst; auto|].
+    assert (H' : bind (minmax_chain op (y :: r'))
+                      (fun yc => Ok (EIfExp (EBoolOp And (map (fun z => ECompare op x z) (y :: r'))) x yc)) = Ok c)
+      by exact H.
+    inv_bind H'. inversion H'; subst. cbn [gexp]. rewrite Gx, (IH _ Gr Ha). rewrite !andb_true_r.
+    change (ECompare op x y :: map (fun z : exp => ECompare op x z) r') with (map (fun z : exp => ECompare op x z) (y :: r')).
+    clear - Gx Gr. revert Gr. generalize (y :: r'). intro l. induction l as [|z l IHl]; intro Gr; simpl in *; auto.
+    apply andb_true_iff in Gr. destruct Gr as [Gz Gl]. now rewrite Gx, Gz, IHl.
+  Qed.
+
+  Lemma same_kind_eq vs v v' m :
+    (forallb is_vbool vs = true \/ forallb is_vint vs = true) -> List.In v vs -> List.In v' vs ->
+    as_int v = Some m -> as_int v' = Some m -> v = v'.
+  Proof.
+    intros K I I' A A'. destruct K as [K|K]; rewrite forallb_forall in K;
+      pose proof (K _ I) as K1; pose proof (K _ I') as K2;
+      destruct v, v'; simpl in *; try discriminate.
+    - destruct b, b0; simpl in *; congruence.
+    - congruence.
+  Qed.
+
+  Lemma rw_exp_sound st e : st_ok st -> forall e',
+    gexp visible plen pbool pint [] e = true -> rw_exp st e = Ok e' ->
+    (forall rho, Inv rho -> eval rho e' = eval rho e) /\ gexp visible plen pbool pint [] e' = true.
+  Proof.
+    intro S.
     induction e as [x|c|e IHe|op l H0|op e1 e2 IHe1 IHe2|op e IHe|op e1 e2 IHe1 IHe2|e1 e2 e3 IHe1 IHe2 IHe3|l H0|l H0|e1 e2 IHe1 IHe2|f args H0]
       using exp_ind2; intros e' G H; cbn [gexp rw_exp] in G, H.
     - destruct (visible_inv _ G) as [D _]. rewrite D in H. inversion H; subst. auto.
     - inversion H; subst. auto.
     - discriminate.
     - inv_bind H. inversion H; subst. apply mapM_ok in Ha.
-      assert (K : Forall2 (fun x y => (forall rho, eval rho y = eval rho x) /\ gexp visible [] y = true) l a).
+      assert (K : Forall2 (fun x y => (forall rho, Inv rho -> eval rho y = eval rho x) /\ gexp visible plen pbool pint [] y = true) l a).
       { revert G H0. clear H. induction Ha; intros G F; constructor.
         - simpl in G. apply andb_true_iff in G. destruct G. inversion F; subst. auto.
         - simpl in G. apply andb_true_iff in G. destruct G. inversion F; subst. auto. }
       split.
-      + intro rho. simpl. apply boolop_with_ext. clear - K. induction K; constructor; auto. destruct H. auto.
+      + intros rho J. simpl. apply boolop_with_ext. clear - K J. induction K; constructor; auto. destruct H. auto.
       + simpl. clear - K. induction K; simpl; auto. destruct H as [_ ->]. auto.
     - apply andb_true_iff in G; destruct G as [G Gb]. apply andb_true_iff in G; destruct G as [Gop Ga].
       assert (H' : bind (rw_exp st e1) (fun a' => bind (rw_exp st e2) (fun b' => Ok (EBinOp op a' b'))) = Ok e').
       { destruct op; try discriminate; exact H. }
       clear H. inv_bind H'. inv_bind H'. inversion H'; subst.
       destruct (IHe1 _ Ga Ha) as (E1 & G1). destruct (IHe2 _ Gb Ha0) as (E2 & G2). split.
-      + intro rho; simpl. now rewrite E1, E2.
+      + intros rho J; simpl. now rewrite (E1 _ J), (E2 _ J).
       + simpl. now rewrite Gop, G1, G2.
     - inv_bind H. inversion H; subst. destruct (IHe _ G Ha) as (E1 & G1). split; auto.
-      intro rho; simpl. now rewrite E1.
+      intros rho J; simpl. now rewrite (E1 _ J).
     - apply andb_true_iff in G; destruct G as [Ga Gb].
       inv_bind H. inv_bind H. inversion H; subst.
       destruct (IHe1 _ Ga Ha) as (E1 & G1). destruct (IHe2 _ Gb Ha0) as (E2 & G2). split.
-      + intro rho; simpl. now rewrite E1, E2.
+      + intros rho J; simpl. now rewrite (E1 _ J), (E2 _ J).
       + simpl. now rewrite G1, G2.
     - apply andb_true_iff in G; destruct G as [G Gf]. apply andb_true_iff in G; destruct G as [Gc Gt].
       inv_bind H. inv_bind H. inv_bind H. inversion H; subst.
       destruct (IHe1 _ Gc Ha) as (E1 & G1). destruct (IHe2 _ Gt Ha0) as (E2 & G2).
       destruct (IHe3 _ Gf Ha1) as (E3 & G3). split.
-      + intro rho; simpl. now rewrite E1, E2, E3.
+      + intros rho J; simpl. now rewrite (E1 _ J), (E2 _ J), (E3 _ J).
       + simpl. now rewrite G1, G2, G3.
     - inv_bind H. inversion H; subst. apply mapM_ok in Ha.
-      assert (K : Forall2 (fun x y => (forall rho, eval rho y = eval rho x) /\ gexp visible [] y = true) l a).
+      assert (K : Forall2 (fun x y => (forall rho, Inv rho -> eval rho y = eval rho x) /\ gexp visible plen pbool pint [] y = true) l a).
       { revert G H0. clear H. induction Ha; intros G F; constructor.
         - simpl in G. apply andb_true_iff in G. destruct G. inversion F; subst. auto.
         - simpl in G. apply andb_true_iff in G. destruct G. inversion F; subst. auto. }
       split.
-      + intro rho. simpl. f_equal. apply all_some_map_ext. clear - K. induction K; constructor; auto. destruct H. auto.
+      + intros rho J. simpl. f_equal. apply all_some_map_ext. clear - K J. induction K; constructor; auto. destruct H. auto.
       + simpl. clear - K. induction K; simpl; auto. destruct H as [_ ->]. auto.
     - inv_bind H. inversion H; subst. apply mapM_ok in Ha.
-      assert (K : Forall2 (fun x y => (forall rho, eval rho y = eval rho x) /\ gexp visible [] y = true) l a).
+      assert (K : Forall2 (fun x y => (forall rho, Inv rho -> eval rho y = eval rho x) /\ gexp visible plen pbool pint [] y = true) l a).
       { revert G H0. clear H. induction Ha; intros G F; constructor.
         - simpl in G. apply andb_true_iff in G. destruct G. inversion F; subst. auto.
         - simpl in G. apply andb_true_iff in G. destruct G. inversion F; subst. auto. }
       split.
-      + intro rho. simpl. f_equal. apply all_some_map_ext. clear - K. induction K; constructor; auto. destruct H. auto.
+      + intros rho J. simpl. f_equal. apply all_some_map_ext. clear - K J. induction K; constructor; auto. destruct H. auto.
       + simpl. clear - K. induction K; simpl; auto. destruct H as [_ ->]. auto.
     - apply andb_true_iff in G; destruct G as [Gv Gs].
       destruct e2; try discriminate.
       + simpl in Gs. rewrite andb_false_r in Gs. discriminate.
       + cbn [rw_subscript] in H. inversion H; subst. split; auto. cbn [gexp]. now rewrite Gv, Gs.
-    - apply andb_true_iff in G; destruct G as [Gf Ga]. apply negb_true_iff in Gf.
+    - apply orb_true_iff in G. destruct G as [G|Gt].
+      2:{ (* len(a) / sum(a) of a typed tuple argument *)
+          destruct (typed_call_inv _ _ _ Gt) as (y & n & -> & Vy & Py & Hf).
+          destruct (S _ _ Py) as (tl & Hty & Ltl). destruct (conf0 _ _ Py) as (vals & Hv & Lv).
+          assert (Pry : prot y = true) by (unfold M_A2A.prot; now rewrite Py).
+          destruct (visible_inv _ Vy) as (Dy & _).
+          assert (Fv : forall rho, Inv rho ->
+                       Forall2 (fun r v => eval rho r = Some v) (map (access1 y) (List.seq 0 (List.length tl))) vals).
+          { intros rho J. replace (List.length tl) with (List.length vals) by congruence.
+            apply (access_vals y rho [] vals). simpl. rewrite (J y Pry). exact Hv. }
+          destruct Hf as [->|[[-> Ln]|[[Hf [Ln Pb]]|[Hf [Ln Pk]]]]].
+          - cbn [rw_exp mapM bind] in H. rewrite Dy in H. cbn [bind mapM] in H.
+            change (String.eqb "len" "print" || String.eqb "len" "range") with false in H.
+            change (String.eqb "len" "len") with true in H. cbv iota in H.
+            unfold unroll_arg in H. rewrite Hty in H. simpl in H. inversion H; subst e'. split; auto.
+            intros rho J. rewrite map_length, seq_length. cbn [M_A2A.eval map all_some]. rewrite (J y Pry), Hv.
+            simpl. change (builtin_val "len" [VTup vals]) with (Some (VInt (Z.of_nat (List.length vals)))). congruence.
+          - cbn [rw_exp mapM bind] in H. rewrite Dy in H. cbn [bind mapM] in H.
+            change (String.eqb "sum" "print" || String.eqb "sum" "range") with false in H.
+            change (String.eqb "sum" "len") with false in H. change (String.eqb "sum" "sum") with true in H.
+            cbv iota in H. unfold unroll_arg in H. rewrite Hty in H. simpl in H. split.
+            + intros rho J.
+              assert (L2 : (2 <= List.length (map (access1 y) (List.seq 0 (List.length tl))))%nat).
+              { rewrite map_length, seq_length. lia. }
+              rewrite (sum_chain_eval rho _ _ _ (Fv rho J) L2 H). simpl. rewrite (J y Pry), Hv. simpl.
+              change (builtin_val "sum" [VTup vals]) with
+                (option_map (fun zs => VInt (fold_left Z.add zs 0%Z)) (all_some (map as_int vals))).
+              destruct (all_some (map as_int vals)) as [zs|] eqn:Az; simpl; auto.
+              rewrite fold_left_add. repeat f_equal.
+            + apply (sum_chain_gexp visible [] _ _) in H; auto.
+              clear - Vy. induction (List.seq 0 (List.length tl)); simpl; auto. now rewrite Vy, IHl.
+          - (* all / any *)
+            destruct (confb0 _ Pb) as (vals' & Hv' & Bv). rewrite Hv in Hv'. inversion Hv'; subst vals'.
+            assert (Ne : map (access1 y) (List.seq 0 (List.length tl)) <> []).
+            { destruct tl; simpl in *; [lia|discriminate]. }
+            assert (Gl : forallb (gexp visible plen pbool pint []) (map (access1 y) (List.seq 0 (List.length tl))) = true).
+            { clear - Vy. induction (List.seq 0 (List.length tl)); simpl; auto. now rewrite Vy, IHl. }
+            destruct Hf as [->| ->].
+            + cbn [rw_exp mapM bind] in H. rewrite Dy in H. cbn [bind mapM] in H.
+              unfold unroll_arg in H. rewrite Hty in H. vm_compute String.eqb in H. cbn in H.
+              inversion H; subst e'. split; [|exact Gl].
+              intros rho J. cbn [M_A2A.eval]. rewrite (boolop_bools rho And _ _ (Fv rho J) Bv Ne).
+              cbn [map all_some M_A2A.eval]. rewrite (J y Pry), Hv. reflexivity.
+            + cbn [rw_exp mapM bind] in H. rewrite Dy in H. cbn [bind mapM] in H.
+              unfold unroll_arg in H. rewrite Hty in H. vm_compute String.eqb in H. cbn in H.
+              inversion H; subst e'. split; [|exact Gl].
+              intros rho J. cbn [M_A2A.eval]. rewrite (boolop_bools rho Or _ _ (Fv rho J) Bv Ne).
+              cbn [map all_some M_A2A.eval]. rewrite (J y Pry), Hv. reflexivity.
+          - (* min / max *)
+            assert (K : forallb is_vbool vals = true \/ forallb is_vint vals = true).
+            { destruct Pk as [Pb|Pi].
+              - left. destruct (confb0 _ Pb) as (vals' & Hv' & Bv). rewrite Hv in Hv'. now inversion Hv'; subst.
+              - right. destruct (confi0 _ Pi) as (vals' & Hv' & Bv). rewrite Hv in Hv'. now inversion Hv'; subst. }
+            destruct (kinds_as_int _ K) as (zs & Az).
+            assert (Ne : map (access1 y) (List.seq 0 (List.length tl)) <> []).
+            { destruct tl; simpl in *; [lia|discriminate]. }
+            assert (Gl : forallb (gexp visible plen pbool pint []) (map (access1 y) (List.seq 0 (List.length tl))) = true).
+            { clear - Vy. induction (List.seq 0 (List.length tl)); simpl; auto. now rewrite Vy, IHl. }
+            assert (MM : forall (is_max : bool),
+                      f = (if is_max then "max" else "min") ->
+                      minmax_chain (if is_max then M_A2A.Gt else LtE) (map (access1 y) (List.seq 0 (List.length tl))) = Ok e' ->
+                      (forall rho, Inv rho -> eval rho e' = eval rho (ECall f [EName y])) /\
+                      gexp visible plen pbool pint [] e' = true).
+            { intros is_max Ef Hc. split; [|apply (minmax_chain_gexp visible [] _ _ _ Gl Hc)].
+              intros rho J.
+              destruct (minmax_chain_ext rho is_max _ _ zs e' (Fv rho J) Az Ne Hc) as (v & m & Ev & Iv & Am & Em).
+              rewrite Ev. cbn [M_A2A.eval map all_some]. rewrite (J y Pry), Hv. cbn [option_map].
+              destruct vals as [|v0 rest]; [simpl in Lv; lia|].
+              simpl in Az. destruct (as_int v0) as [z0|] eqn:A0; try discriminate.
+              destruct (all_some (map as_int rest)) as [zr|] eqn:Ar; try discriminate. simpl in Az. inversion Az; subst zs.
+              destruct (extreme_some is_max rest zr v0 z0 Ar) as (v' & Ex).
+              destruct (extreme_ext is_max rest zr v0 z0 [z0] v' A0 Ar) as (m' & Am' & Em' & Iv'); auto.
+              { split; [left; auto|]. intros z [<-|[]]. destruct is_max; lia. }
+              assert (Em2 : m = m') by (apply (is_ext_unique is_max (z0 :: zr)); auto).
+              subst m'.
+              assert (Evv : v = v').
+              { apply (same_kind_eq (v0 :: rest) v v' m K); auto. destruct Iv' as [->|Iv']; [left|right]; auto. }
+              subst v'. subst f. destruct is_max.
+              { change (Some v = extreme_of true (v0 :: rest)). unfold extreme_of. rewrite A0. exact (eq_sym Ex). }
+              { change (Some v = extreme_of false (v0 :: rest)). unfold extreme_of. rewrite A0. exact (eq_sym Ex). } }
+            destruct Hf as [->| ->].
+            + cbn [rw_exp mapM bind] in H. rewrite Dy in H. cbn [bind mapM] in H.
+              unfold unroll_arg in H. rewrite Hty in H. vm_compute String.eqb in H. cbn in H.
+              apply (MM false eq_refl H).
+            + cbn [rw_exp mapM bind] in H. rewrite Dy in H. cbn [bind mapM] in H.
+              unfold unroll_arg in H. rewrite Hty in H. vm_compute String.eqb in H. cbn in H.
+              apply (MM true eq_refl H). }
+      apply andb_true_iff in G; destruct G as [Gf Ga]. apply negb_true_iff in Gf.
       destruct (special_false _ Gf) as (F1 & F2 & F3 & F4 & F5 & F6 & F7 & F8 & F9 & F10 & F11).
       assert (Hs : is_seqfun f = false).
       { unfold is_seqfun. cbn [existsb]. rewrite F1, F2, F3, F4, F5, F6. reflexivity. }
@@ -1287,29 +1645,29 @@ Section RwExp.
         destruct x0; try exact H. rewrite Hs, andb_false_r in H. exact H. }
       clear H. rename H' into H. inv_bind H. inversion H; subst.
       apply mapM_ok in Ha.
-      assert (K : Forall2 (fun x y => (forall rho, eval rho y = eval rho x) /\ gexp visible [] y = true) args a).
+      assert (K : Forall2 (fun x y => (forall rho, Inv rho -> eval rho y = eval rho x) /\ gexp visible plen pbool pint [] y = true) args a).
       { revert Ga H0. clear H. induction Ha; intros G F; constructor.
         - simpl in G. apply andb_true_iff in G. destruct G. inversion F; subst. auto.
         - simpl in G. apply andb_true_iff in G. destruct G. inversion F; subst. auto. }
       split.
-      + intro rho. simpl.
+      + intros rho J. simpl.
         replace (all_some (map (eval rho) a)) with (all_some (map (eval rho) args)); auto.
-        apply all_some_map_ext. clear - K. induction K; constructor; auto. destruct H. auto.
-      + cbn [gexp]. rewrite Gf. simpl. clear - K. induction K; simpl; auto. destruct H as [_ ->]. auto.
+        apply all_some_map_ext. clear - K J. induction K; constructor; auto. destruct H as [H _]. symmetry. auto.
+      + cbn [gexp]. rewrite Gf. apply orb_true_iff. left. simpl. clear - K. induction K; simpl; auto. destruct H as [_ ->]. auto.
   Qed.
 
   Lemma rw_args_sound st args args' :
-    forallb (gexp visible []) args = true -> mapM (rw_exp st) args = Ok args' ->
-    (forall rho, all_some (map (eval rho) args') = all_some (map (eval rho) args)) /\
-    forallb (gexp visible []) args' = true.
+    st_ok st -> forallb (gexp visible plen pbool pint []) args = true -> mapM (rw_exp st) args = Ok args' ->
+    (forall rho, Inv rho -> all_some (map (eval rho) args') = all_some (map (eval rho) args)) /\
+    forallb (gexp visible plen pbool pint []) args' = true.
   Proof.
-    revert args'; induction args as [|a r IH]; intros args' G H; simpl in H.
+    intro S. revert args'; induction args as [|a r IH]; intros args' G H; simpl in H.
     - inversion H; subst; auto.
     - simpl in G. apply andb_true_iff in G; destruct G as [Ga Gr].
       inv_bind H. inv_bind H. inversion H; subst.
-      destruct (rw_exp_sound st _ _ Ga Ha) as (E1 & G1). destruct (IH _ Gr Ha0) as (E2 & G2).
+      destruct (rw_exp_sound st _ S _ Ga Ha) as (E1 & G1). destruct (IH _ Gr Ha0) as (E2 & G2).
       split.
-      + intro rho. simpl. now rewrite E1, E2.
+      + intros rho J. simpl. now rewrite (E1 _ J), (E2 _ J).
       + simpl. now rewrite G1, G2.
   Qed.
 End RwExp.
@@ -1556,7 +1914,7 @@ Section SubstGuard.
   Hypothesis Px : M_A2A.prot plen x = false.
 
   Lemma subst_exp_guard l1 l2 e : forall e',
-    gexp okn (l1 ++ x :: l2) e = true -> subst_exp x (EConst c) e = Ok e' -> gexp okn (l1 ++ l2) e' = true.
+    gexp okn plen pbool pint (l1 ++ x :: l2) e = true -> subst_exp x (EConst c) e = Ok e' -> gexp okn plen pbool pint (l1 ++ l2) e' = true.
   Proof.
     induction e as [y|k|e IHe|op l H0|op e1 e2 IHe1 IHe2|op e IHe|op e1 e2 IHe1 IHe2|e1 e2 e3 IHe1 IHe2 IHe3|l H0|l H0|e1 e2 IHe1 IHe2|f args H0]
       using exp_ind2; intros e' G H; cbn [gexp subst_exp] in G, H.
@@ -1584,14 +1942,20 @@ Section SubstGuard.
         destruct (String.eqb x0 x) eqn:E; auto.
         rewrite Gx. simpl. rewrite existsb_app in *. simpl in Gl. rewrite E in Gl. exact Gl.
       + exact Gs.
-    - apply andb_true_iff in G; destruct G as [Gf Ga].
-      destruct (String.eqb f x); try discriminate. inv_bind H. inversion H; subst. cbn [gexp]. rewrite Gf. simpl.
+    - apply orb_true_iff in G. destruct G as [G|Gt].
+      2:{ destruct (typed_call_inv _ _ _ Gt) as (y & n & -> & Oy & Py & _).
+          destruct (String.eqb f x); try discriminate. cbn [mapM subst_exp bind] in H.
+          destruct (String.eqb y x) eqn:E.
+          - apply String.eqb_eq in E. subst y. unfold M_A2A.prot in Px. rewrite Py in Px. discriminate.
+          - inversion H; subst. cbn [gexp]. rewrite Gt. apply orb_true_r. }
+      apply andb_true_iff in G; destruct G as [Gf Ga].
+      destruct (String.eqb f x); try discriminate. inv_bind H. inversion H; subst. cbn [gexp]. rewrite Gf. apply orb_true_iff; left. simpl.
       apply mapM_ok in Ha. apply (forallb_Forall2 _ _ _ _ _ Ha H0 Ga).
   Qed.
 
   Lemma subst_args_guard l1 l2 args args' :
-    forallb (gexp okn (l1 ++ x :: l2)) args = true -> mapM (subst_exp x (EConst c)) args = Ok args' ->
-    forallb (gexp okn (l1 ++ l2)) args' = true.
+    forallb (gexp okn plen pbool pint (l1 ++ x :: l2)) args = true -> mapM (subst_exp x (EConst c)) args = Ok args' ->
+    forallb (gexp okn plen pbool pint (l1 ++ l2)) args' = true.
   Proof.
     intros G H. apply mapM_ok in H. revert G. induction H; intro G; simpl in *; auto.
     apply andb_true_iff in G; destruct G. rewrite (subst_exp_guard _ _ _ _ H1 H), IHForall2; auto.
@@ -1604,14 +1968,14 @@ Section SubstGuard.
   Qed.
 
   Definition subst_guard_spec (s : stmt) : Prop :=
-    forall inner l1 l2 s', notup s = true -> gstmt okn plen (l1 ++ x :: l2) s = true ->
+    forall inner l1 l2 s', notup s = true -> gstmt okn plen pbool pint (l1 ++ x :: l2) s = true ->
                            subst_stmt inner x (EConst c) s = Ok s' ->
-                           gstmt okn plen (l1 ++ l2) s' = true /\ notup s' = true.
+                           gstmt okn plen pbool pint (l1 ++ l2) s' = true /\ notup s' = true.
 
   Lemma subst_list_guard b : Forall subst_guard_spec b ->
-    forall inner l1 l2 b', forallb notup b = true -> forallb (gstmt okn plen (l1 ++ x :: l2)) b = true ->
+    forall inner l1 l2 b', forallb notup b = true -> forallb (gstmt okn plen pbool pint (l1 ++ x :: l2)) b = true ->
                            mapM (subst_stmt inner x (EConst c)) b = Ok b' ->
-                           forallb (gstmt okn plen (l1 ++ l2)) b' = true /\ forallb notup b' = true.
+                           forallb (gstmt okn plen pbool pint (l1 ++ l2)) b' = true /\ forallb notup b' = true.
   Proof.
     induction 1 as [|s r Hs Hr IH]; intros inner l1 l2 b' N G H; simpl in H.
     - inversion H; auto.
@@ -1644,7 +2008,7 @@ Section SubstGuard.
       apply andb_true_iff in G; destruct G as [G Gn]. apply andb_true_iff in G; destruct G as [Gy Gi].
       inv_bind H. inv_bind H. inv_bind H. inversion H; subst.
       destruct (subst_list_guard _ Hfo inner l1 l2 _ No Go Ha1) as (G2 & N2).
-      assert (K : giter okn plen (l1 ++ l2) a = true /\ name_iter plen a = name_iter plen it).
+      assert (K : giter okn plen pbool pint (l1 ++ l2) a = true /\ name_iter plen a = name_iter plen it).
       { unfold giter in *. pose proof (subst_is_call x (EConst c) (fun _ => eq_refl) "range" _ _ Ha) as K.
         destruct (is_call "range" it) as [args|] eqn:Ci.
         - destruct K as (args' & Ci' & Ha'). rewrite Ci'. split; [apply (subst_args_guard _ _ _ _ Gi Ha')|].
@@ -1671,9 +2035,9 @@ Section SubstGuard.
   Qed.
 
   Lemma subst_body_guard inner lv b b' :
-    forallb notup b = true -> forallb (gstmt okn plen (x :: lv)) b = true ->
+    forallb notup b = true -> forallb (gstmt okn plen pbool pint (x :: lv)) b = true ->
     mapM (subst_stmt inner x (EConst c)) b = Ok b' ->
-    forallb (gstmt okn plen lv) b' = true /\ forallb notup b' = true.
+    forallb (gstmt okn plen pbool pint lv) b' = true /\ forallb notup b' = true.
   Proof.
     intros N G H. apply (subst_list_guard b) with (inner := inner) (l1 := []) (l2 := lv); auto.
     apply Forall_forall. intros s _. apply subst_stmt_guard.
@@ -1686,13 +2050,13 @@ Section SubstGuardT.
   Variable okn : string -> bool.
   Variable x : string.
   Variable re : exp.
-  Hypothesis Gre : forall lv, gexp okn lv re = true.
+  Hypothesis Gre : forall lv, gexp okn plen pbool pint lv re = true.
   Hypothesis re_not_call : forall g, is_call g re = None.
   Hypothesis Px : M_A2A.prot plen x = false.
 
   Lemma subst_exp_guardT lv e : forall e',
     existsb (String.eqb x) lv = false ->
-    gexp okn lv e = true -> subst_exp x re e = Ok e' -> gexp okn lv e' = true.
+    gexp okn plen pbool pint lv e = true -> subst_exp x re e = Ok e' -> gexp okn plen pbool pint lv e' = true.
   Proof.
     intros e' Nx. revert e'.
     induction e as [y|k|e IHe|op l H0|op e1 e2 IHe1 IHe2|op e IHe|op e1 e2 IHe1 IHe2|e1 e2 e3 IHe1 IHe2 IHe3|l H0|l H0|e1 e2 IHe1 IHe2|f args H0]
@@ -1723,15 +2087,21 @@ Section SubstGuardT.
           congruence.
         * now rewrite Gx, Gl.
       + exact Gs.
-    - apply andb_true_iff in G; destruct G as [Gf Ga].
-      destruct (String.eqb f x); try discriminate. inv_bind H. inversion H; subst. cbn [gexp]. rewrite Gf. simpl.
+    - apply orb_true_iff in G. destruct G as [G|Gt].
+      2:{ destruct (typed_call_inv _ _ _ Gt) as (y & n & -> & Oy & Py & _).
+          destruct (String.eqb f x); try discriminate. cbn [mapM subst_exp bind] in H.
+          destruct (String.eqb y x) eqn:E.
+          - apply String.eqb_eq in E. subst y. unfold M_A2A.prot in Px. rewrite Py in Px. discriminate.
+          - inversion H; subst. cbn [gexp]. rewrite Gt. apply orb_true_r. }
+      apply andb_true_iff in G; destruct G as [Gf Ga].
+      destruct (String.eqb f x); try discriminate. inv_bind H. inversion H; subst. cbn [gexp]. rewrite Gf. apply orb_true_iff; left. simpl.
       apply mapM_ok in Ha. apply (forallb_Forall2 _ _ _ _ _ Ha H0 Ga).
   Qed.
 
   Lemma subst_args_guardT lv args args' :
     existsb (String.eqb x) lv = false ->
-    forallb (gexp okn lv) args = true -> mapM (subst_exp x re) args = Ok args' ->
-    forallb (gexp okn lv) args' = true.
+    forallb (gexp okn plen pbool pint lv) args = true -> mapM (subst_exp x re) args = Ok args' ->
+    forallb (gexp okn plen pbool pint lv) args' = true.
   Proof.
     intros Nx G H. apply mapM_ok in H. revert G. induction H; intro G; simpl in *; auto.
     apply andb_true_iff in G; destruct G. rewrite (subst_exp_guardT _ _ _ Nx H1 H), IHForall2; auto.
@@ -1745,13 +2115,13 @@ Section SubstGuardT.
 
   Definition subst_guardT_spec (s : stmt) : Prop :=
     forall inner lv s', notup s = true -> existsb (String.eqb x) lv = false ->
-                        gstmt okn plen lv s = true -> subst_stmt inner x re s = Ok s' ->
-                        gstmt okn plen lv s' = true /\ notup s' = true.
+                        gstmt okn plen pbool pint lv s = true -> subst_stmt inner x re s = Ok s' ->
+                        gstmt okn plen pbool pint lv s' = true /\ notup s' = true.
 
   Lemma subst_list_guardT b : Forall subst_guardT_spec b ->
     forall inner lv b', forallb notup b = true -> existsb (String.eqb x) lv = false ->
-                        forallb (gstmt okn plen lv) b = true -> mapM (subst_stmt inner x re) b = Ok b' ->
-                        forallb (gstmt okn plen lv) b' = true /\ forallb notup b' = true.
+                        forallb (gstmt okn plen pbool pint lv) b = true -> mapM (subst_stmt inner x re) b = Ok b' ->
+                        forallb (gstmt okn plen pbool pint lv) b' = true /\ forallb notup b' = true.
   Proof.
     induction 1 as [|s r Hs Hr IH]; intros inner lv b' N Nx G H; simpl in H.
     - inversion H; auto.
@@ -1784,7 +2154,7 @@ Section SubstGuardT.
       apply andb_true_iff in G; destruct G as [G Gn]. apply andb_true_iff in G; destruct G as [Gy Gi].
       inv_bind H. inv_bind H. inv_bind H. inversion H; subst.
       destruct (subst_list_guardT _ Hfo inner lv _ No Nx Go Ha1) as (G2 & N2).
-      assert (K : giter okn plen lv a = true /\ name_iter plen a = name_iter plen it).
+      assert (K : giter okn plen pbool pint lv a = true /\ name_iter plen a = name_iter plen it).
       { unfold giter in *. pose proof (subst_is_call x re re_not_call "range" _ _ Ha) as K.
         destruct (is_call "range" it) as [args|] eqn:Ci.
         - destruct K as (args' & Ci' & Ha'). rewrite Ci'. split; [apply (subst_args_guardT _ _ _ Nx Gi Ha')|].
@@ -1812,9 +2182,9 @@ Section SubstGuardT.
   Qed.
 
   Lemma subst_body_guardT inner b b' :
-    forallb notup b = true -> forallb (gstmt okn plen []) b = true ->
+    forallb notup b = true -> forallb (gstmt okn plen pbool pint []) b = true ->
     mapM (subst_stmt inner x re) b = Ok b' ->
-    forallb (gstmt okn plen []) b' = true /\ forallb notup b' = true.
+    forallb (gstmt okn plen pbool pint []) b' = true /\ forallb notup b' = true.
   Proof.
     intros N G H. apply (subst_list_guardT b) with (inner := inner) (lv := []); auto.
     apply Forall_forall. intros s _. apply subst_stmt_guardT.
@@ -1842,38 +2212,13 @@ Section Rw.
     end.
   Definition shape lo hi (l : list stmt) : Prop := Forall (stmt_shape lo hi) l.
 
-  (* the types the rewriter's environment records for the typed tuple arguments are their
-     annotations, whatever else has been bound since *)
-  Definition st_ok (st : rstate) : Prop :=
-    forall a n, plen a = Some n ->
-                exists l, assoc (tys st) a = Some (TyNode (ESubscript (EName "Tuple") (ETuple l))) /\
-                          List.length l = n.
-
-  Lemma st_ok_tys st st' : tys st' = tys st -> st_ok st -> st_ok st'.
-  Proof. intros E S a n Pa. rewrite E. auto. Qed.
-
-  Lemma st_ok_cons st st' x t : prot x = false -> tys st' = (x, t) :: tys st -> st_ok st -> st_ok st'.
-  Proof.
-    intros Px E S a n Pa. rewrite E. simpl. destruct (String.eqb x a) eqn:Exa; auto.
-    apply String.eqb_eq in Exa. subst. unfold M_A2A.prot in Px. rewrite Pa in Px. discriminate.
-  Qed.
-
-  Lemma st_ok_set_type st x t : prot x = false -> st_ok st -> st_ok (set_type st x t).
-  Proof. intros Px. apply (st_ok_cons st _ x t Px). reflexivity. Qed.
-
-  Lemma st_ok_set_constant st x v : prot x = false -> st_ok st -> st_ok (set_constant st x v).
-  Proof.
-    intros Px S. unfold set_constant.
-    destruct (match v with EConst k => (CvRaw k, TyRaw) | EConstNode e => (CvNode e, TyNode e) | e => (CvNode e, TyNode e) end) as [c t].
-    destruct (has_key (tys st) x).
-    - apply (st_ok_tys st); auto.
-    - apply (st_ok_cons st _ x t Px); auto.
-  Qed.
-
   Lemma tmp_not_prot x : prot (tmp x) = false.
-  Proof. apply not_user_not_prot. reflexivity. Qed.
+  Proof. apply not_user_not_prot. unfold user_name. now rewrite tmp_dunder. Qed.
   Lemma iftarg_not_prot u : prot (iftarg_name u) = false.
-  Proof. apply not_user_not_prot. reflexivity. Qed.
+  Proof.
+    apply not_user_not_prot. unfold user_name, reserved. fold (is_iftarg (iftarg_name u)).
+    rewrite iftarg_is. rewrite orb_true_r. simpl. rewrite ?andb_false_r. reflexivity.
+  Qed.
 
   Lemma shape_mono lo hi lo' hi' l : (lo' <= lo)%N -> (hi <= hi')%N -> shape lo hi l -> shape lo' hi' l.
   Proof.
@@ -1903,12 +2248,13 @@ Section Rw.
 
   (* ---------- self-referencing assignments and augmented assignments ---------- *)
   Lemma bsim_tmp x e v :
-    visible x = true -> prot x = false -> gexp visible [] e = true -> (forall rho, eval rho v = eval rho e) ->
+    visible x = true -> prot x = false -> gexp visible plen pbool pint [] e = true ->
+    (forall rho, Inv rho -> eval rho v = eval rho e) ->
     bsim visible (exec (SAssign (TName x) e))
                  (exec_list [SAssign (TName (tmp x)) v; SAssign (TName x) (EName (tmp x))]).
   Proof.
     intros Vx Px G E rho rho' o' J R H.
-    rewrite exec_list_cons in H. cbn [M_A2A.exec] in H. rewrite E in H.
+    rewrite exec_list_cons in H. cbn [M_A2A.exec] in H. rewrite (E _ J) in H.
     cbn [M_A2A.exec]. rewrite (eval_agree ext visible [] e rho rho' G R).
     destruct (eval rho' e) as [w|]; try discriminate.
     rewrite exec_list_single in H. cbn [M_A2A.exec M_A2A.eval] in H.
@@ -1926,17 +2272,17 @@ Section Rw.
   Qed.
 
   Lemma assign_env_ok st x e st1 e1 :
-    gexp visible [] e = true -> assign_env st x e = Ok (st1, e1) ->
-    uq st1 = uq st /\ (forall rho, eval rho e1 = eval rho e) /\ gexp visible [] e1 = true.
+    st_ok st -> gexp visible plen pbool pint [] e = true -> assign_env st x e = Ok (st1, e1) ->
+    uq st1 = uq st /\ (forall rho, Inv rho -> eval rho e1 = eval rho e) /\ gexp visible plen pbool pint [] e1 = true.
   Proof.
-    intros G H.
+    intros S G H.
     assert (T : forall l, (e = ETuple l \/ e = EList l) ->
-                uq st1 = uq st /\ (forall rho, eval rho e1 = eval rho e) /\ gexp visible [] e1 = true).
+                uq st1 = uq st /\ (forall rho, Inv rho -> eval rho e1 = eval rho e) /\ gexp visible plen pbool pint [] e1 = true).
     { intros l El. assert (H' : bind (rw_exp st e) (fun r1 =>
                  if Bool.eqb (name_in x e) (name_in x r1) then Ok (set_constant st x r1, r1) else Unmod) = Ok (st1, e1)).
       { destruct El; subst e; exact H. }
       inv_bind H'. destruct (Bool.eqb _ _); try discriminate. inversion H'; subst.
-      destruct (rw_exp_sound ext st _ _ G Ha) as (E1 & G1). split; auto.
+      destruct (rw_exp_sound ext st _ S _ G Ha) as (E1 & G1). split; auto.
       unfold set_constant. destruct e1; destruct (has_key (tys st) x); reflexivity. }
     destruct e; try (eapply T; eauto; fail); simpl in H.
     - destruct (in_env st x0).
@@ -1983,23 +2329,24 @@ Section Rw.
   Qed.
 
   Lemma tmp_guard x a :
-    prot x = false -> gexp anyn [] a = true ->
-    forallb (gstmt anyn plen []) [SAssign (TName (tmp x)) a; SAssign (TName x) (EName (tmp x))] = true.
+    prot x = false -> gexp anyn plen pbool pint [] a = true ->
+    forallb (gstmt anyn plen pbool pint []) [SAssign (TName (tmp x)) a; SAssign (TName x) (EName (tmp x))] = true.
   Proof.
     intros Px Ga. cbn [forallb gstmt gexp]. rewrite Ga. unfold okt, anyn. rewrite tmp_not_prot, Px. reflexivity.
   Qed.
 
   Lemma rw_assign_sound st x e l st' :
-    visible x = true -> prot x = false -> gexp visible [] e = true -> rw_assign st x e = Ok (l, st') ->
-    uq st' = uq st /\ shape (uq st) (uq st') l /\ forallb (gstmt anyn plen []) l = true /\
-    bsim visible (exec (SAssign (TName x) e)) (exec_list l) /\ (st_ok st -> st_ok st').
+    st_ok st -> visible x = true -> prot x = false -> gexp visible plen pbool pint [] e = true ->
+    rw_assign st x e = Ok (l, st') ->
+    uq st' = uq st /\ shape (uq st) (uq st') l /\ forallb (gstmt anyn plen pbool pint []) l = true /\
+    bsim visible (exec (SAssign (TName x) e)) (exec_list l) /\ st_ok st'.
   Proof.
-    intros Vx Px G H. unfold rw_assign in H. inv_bind H. destruct a as [st1 e1]. inv_bind H.
-    pose proof (assign_env_st _ _ _ _ _ Px Ha) as Sst.
-    destruct (assign_env_ok _ _ _ _ _ G Ha) as (U & E1 & G1).
-    destruct (rw_exp_sound ext st1 _ _ G1 Ha0) as (E2 & G2).
-    assert (Ev : forall rho, eval rho a = eval rho e) by (intro rho; now rewrite E2, E1).
-    assert (Ga : gexp anyn [] a = true) by (apply (gexp_mono visible anyn); auto).
+    intros S Vx Px G H. unfold rw_assign in H. inv_bind H. destruct a as [st1 e1]. inv_bind H.
+    pose proof (assign_env_st _ _ _ _ _ Px Ha S) as Sst.
+    destruct (assign_env_ok _ _ _ _ _ S G Ha) as (U & E1 & G1).
+    destruct (rw_exp_sound ext st1 _ Sst _ G1 Ha0) as (E2 & G2).
+    assert (Ev : forall rho, Inv rho -> eval rho a = eval rho e) by (intros rho J; now rewrite (E2 _ J), (E1 _ J)).
+    assert (Ga : gexp anyn plen pbool pint [] a = true) by (apply (gexp_mono visible anyn); auto).
     destruct (is_seq_lit e && negb (exp_eqb a e1)); try discriminate.
     destruct (name_in x e1 && in_env st x && negb (is_constant e)); inversion H; subst.
     - split; auto. split; [|split; [|split]]; auto.
@@ -2056,14 +2403,14 @@ Section Rw.
     - apply IH. exact S2.
   Qed.
 
-  Lemma WB_guard t l bl : Forall2 (WB t) l bl -> forallb (gstmt anyn plen []) l = true -> forallb (gstmt anyn plen []) bl = true.
+  Lemma WB_guard t l bl : Forall2 (WB t) l bl -> forallb (gstmt anyn plen pbool pint []) l = true -> forallb (gstmt anyn plen pbool pint []) bl = true.
   Proof.
     induction 1; intro G; simpl in *; auto. apply andb_true_iff in G; destruct G as [G1 G2].
     rewrite IHForall2 by auto. destruct H as (y0 & e & o & -> & -> & _). simpl in *.
     apply andb_true_iff in G1; destruct G1 as [G1a G1b]. now rewrite G1a, G1b.
   Qed.
 
-  Lemma WE_guard t l ol : Forall2 (WE t) l ol -> forallb (gstmt anyn plen []) l = true -> forallb (gstmt anyn plen []) ol = true.
+  Lemma WE_guard t l ol : Forall2 (WE t) l ol -> forallb (gstmt anyn plen pbool pint []) l = true -> forallb (gstmt anyn plen pbool pint []) ol = true.
   Proof.
     induction 1; intro G; simpl in *; auto. apply andb_true_iff in G; destruct G as [G1 G2].
     rewrite IHForall2 by auto. destruct H as (y0 & e & -> & [[-> _]|(o & -> & _)]); simpl in *.
@@ -2197,14 +2544,14 @@ Section RwMain.
   Notation iter_vals := (iter_vals ext).
 
   Definition rw_post (st : rstate) (l : list stmt) (st' : rstate) (f : env -> outcome) : Prop :=
-    (uq st <= uq st')%N /\ shape (uq st) (uq st') l /\ forallb (gstmt anyn plen []) l = true /\
+    (uq st <= uq st')%N /\ shape (uq st) (uq st') l /\ forallb (gstmt anyn plen pbool pint []) l = true /\
     bsim visible f (exec_list l) /\ st_ok st'.
 
   Definition rw_spec (n : nat) : Prop :=
-    forall s st l st', gstmt visible plen [] s = true -> notup s = true -> st_ok st ->
+    forall s st l st', gstmt visible plen pbool pint [] s = true -> notup s = true -> st_ok st ->
                        rw_stmt n st s = Ok (l, st') -> rw_post st l st' (exec s).
   Definition rw_list_spec (n : nat) : Prop :=
-    forall b st l st', forallb (gstmt visible plen []) b = true -> forallb notup b = true -> st_ok st ->
+    forall b st l st', forallb (gstmt visible plen pbool pint []) b = true -> forallb notup b = true -> st_ok st ->
                        rw_list_with (rw_stmt n) st b = Ok (l, st') -> rw_post st l st' (exec_list b).
 
   Lemma rw_list_of_spec n : rw_spec n -> rw_list_spec n.
@@ -2223,7 +2570,7 @@ Section RwMain.
   Qed.
 
   (* ---------- what the guard says about bound names ---------- *)
-  Lemma gstmt_tgt_ok okn s : forall lv, gstmt okn plen lv s = true -> tgt_ok s = true.
+  Lemma gstmt_tgt_ok okn s : forall lv, gstmt okn plen pbool pint lv s = true -> tgt_ok s = true.
   Proof.
     induction s as [t e|x op e|c b o Hb Ho|x it b fo Hb Hfo|e|e] using stmt_ind2; intros lv G;
       cbn [gstmt tgt_ok] in *; auto.
@@ -2244,7 +2591,7 @@ Section RwMain.
       clear - Hfo Go. induction Hfo; simpl in *; auto. apply andb_true_iff in Go; destruct Go. rewrite (H lv), IHHfo; auto.
   Qed.
 
-  Lemma glist_tgt_ok okn lv l : forallb (gstmt okn plen lv) l = true -> forallb tgt_ok l = true.
+  Lemma glist_tgt_ok okn lv l : forallb (gstmt okn plen pbool pint lv) l = true -> forallb tgt_ok l = true.
   Proof.
     induction l; simpl; auto. intro G. apply andb_true_iff in G; destruct G.
     rewrite (gstmt_tgt_ok okn a lv), IHl; auto.
@@ -2312,7 +2659,7 @@ Section RwMain.
   (* an element expression: it is substituted for the loop variable as it is, reads no name the
      program may bind, and is no call *)
   Definition elem_ok (r : exp) : Prop :=
-    loop_val r = r /\ (forall lv, gexp visible lv r = true) /\ (forall g, is_call g r = None) /\
+    loop_val r = r /\ (forall lv, gexp visible plen pbool pint lv r = true) /\ (forall g, is_call g r = None) /\
     (forall rho y v, prot y = false -> eval (upd rho y v) r = eval rho r).
 
   Lemma elem_ok_const c : valued c = true -> elem_ok (EConst c).
@@ -2325,27 +2672,20 @@ Section RwMain.
     apply String.eqb_eq in E. subst. congruence.
   Qed.
 
-  Lemma access_vals a rho : forall done rest,
-    rho a = Some (VTup (done ++ rest)) ->
-    Forall2 (fun r v => eval rho r = Some v) (map (access1 a) (List.seq (List.length done) (List.length rest))) rest.
-  Proof.
-    intros done rest. revert done. induction rest as [|v rest IH]; intros done H; simpl; constructor.
-    - simpl. rewrite H. unfold subscript_val. simpl. apply index_list_mid.
-    - replace (S (List.length done)) with (List.length (done ++ [v])) by (rewrite app_length; simpl; lia).
-      apply IH. now rewrite <- app_assoc.
-  Qed.
+  Lemma Inv_agree rho rho' : Inv rho' -> Ragree visible rho rho' -> Inv rho.
+  Proof. intros J R a Pa. rewrite (R a (user_visible _ (prot_user _ Pa))). auto. Qed.
 
   Lemma for_iter_sound st it x b pre elems st0 :
-    st_ok st -> prot x = false -> giter visible plen [] it = true -> forallb tgt_ok b = true ->
+    st_ok st -> prot x = false -> giter visible plen pbool pint [] it = true -> forallb tgt_ok b = true ->
     for_iter st it b = Ok (pre, elems, st0) ->
     pre = [] /\ st0 = st /\
     exists vs, Forall elem_ok elems /\
       Forall2 (fun r v => forall rho, Inv rho -> eval rho r = Some v) elems vs /\
       (forall rho rho', Inv rho' -> Ragree visible rho rho' -> iter_vals rho it = Some vs) /\
       (forall r b', List.In r elems -> forallb notup b = true ->
-                    forallb (gstmt visible plen (body_lv plen x [] it)) b = true ->
+                    forallb (gstmt visible plen pbool pint (body_lv plen x [] it)) b = true ->
                     mapM (subst_stmt false x r) b = Ok b' ->
-                    forallb (gstmt visible plen []) b' = true /\ forallb notup b' = true).
+                    forallb (gstmt visible plen pbool pint []) b' = true /\ forallb notup b' = true).
   Proof.
     intros S Px G T H. unfold for_iter in H. unfold giter in G.
     assert (CONST : forall cs vs, forallb valued cs = true ->
@@ -2354,9 +2694,9 @@ Section RwMain.
               Forall elem_ok (map EConst cs) /\
               Forall2 (fun r v => forall rho, Inv rho -> eval rho r = Some v) (map EConst cs) vs /\
               (forall r b', List.In r (map EConst cs) -> forallb notup b = true ->
-                    forallb (gstmt visible plen (body_lv plen x [] it)) b = true ->
+                    forallb (gstmt visible plen pbool pint (body_lv plen x [] it)) b = true ->
                     mapM (subst_stmt false x r) b = Ok b' ->
-                    forallb (gstmt visible plen []) b' = true /\ forallb notup b' = true)).
+                    forallb (gstmt visible plen pbool pint []) b' = true /\ forallb notup b' = true)).
     { intros cs vs Vc F Ni. split; [|split].
       - clear - Vc. induction cs; simpl in *; constructor.
         + apply andb_true_iff in Vc. destruct Vc. now apply elem_ok_const.
@@ -2370,7 +2710,7 @@ Section RwMain.
     - apply is_call_some in Ci. subst it. inv_bind H. inv_bind H. inversion H; subst. clear H.
       split; auto. split; auto.
       unfold range_consts in Ha0. inv_bind Ha0.
-      destruct (rw_args_sound ext _ _ _ G Ha) as (E1 & G1).
+      destruct (rw_args_sound ext _ _ _ S G Ha) as (E1 & G1).
       destruct (fold_args_sound ext visible [] _ _ G1 Ha1) as (E2 & G2).
       destruct (forallb is_constant a0); try discriminate.
       destruct (all_some (map _ a0)) as [zs|] eqn:Hz; try discriminate.
@@ -2384,7 +2724,7 @@ Section RwMain.
       { clear. induction l; simpl; auto. }
       { clear. induction l; simpl; constructor; auto. }
       split; auto. split; auto. split; auto.
-      intros rho rho' _ _. rewrite iter_vals_range, <- E1, <- E2, Ev, Az, Hr. reflexivity.
+      intros rho rho' J R. rewrite iter_vals_range, <- (E1 _ (Inv_agree _ _ J R)), <- E2, Ev, Az, Hr. reflexivity.
     - inv_bind H. apply orb_true_iff in G. destruct G as [G|G].
       + (* a literal tuple / list of constants *)
         assert (K : exists l, (it = ETuple l \/ it = EList l) /\ forallb valued_const l = true).
@@ -2417,7 +2757,7 @@ Section RwMain.
         * rewrite Ltl, <- Lv.
           assert (F : forall rho, Inv rho ->
                       Forall2 (fun r v => eval rho r = Some v) (map (access1 y) (List.seq 0 (List.length vals))) vals).
-          { intros rho J. apply (access_vals y rho [] vals). simpl. rewrite (J y Py). exact Hv. }
+          { intros rho J. apply (access_vals ext y rho [] vals). simpl. rewrite (J y Py). exact Hv. }
           clear - F. revert F. generalize (map (access1 y) (List.seq 0 (List.length vals))). intros l F.
           assert (F0 := F rho0 (fun _ _ => eq_refl)). clear - F F0.
           revert F. induction F0; intro F; constructor.
@@ -2443,7 +2783,7 @@ Section RwMain.
       Forall elem_ok rs ->
       Forall2 (fun r v => forall rho, Inv rho -> eval rho r = Some v) rs vs ->
       (forall r b', List.In r rs -> mapM (subst_stmt false x r) b = Ok b' ->
-                    forallb (gstmt visible plen []) b' = true /\ forallb notup b' = true) ->
+                    forallb (gstmt visible plen pbool pint []) b' = true /\ forallb notup b' = true) ->
       st_ok st ->
       rolls_with (rw_stmt n) x b rs st = Ok (l, st') ->
       rw_post st l st' (loop_with (exec_list b) x vs).
@@ -2456,14 +2796,14 @@ Section RwMain.
       cbn [rolls_with] in H. rewrite Lr in H.
       inv_bind H. destruct a as [l0 st2]. inv_bind H. inv_bind H. destruct a0 as [l1 st3].
       inv_bind H. destruct a0 as [l2 st4]. inversion H; subst.
-      assert (G0 : gstmt visible plen [] (SAssign (TName x) r) = true).
+      assert (G0 : gstmt visible plen pbool pint [] (SAssign (TName x) r) = true).
       { cbn [gstmt]. unfold okt. now rewrite Vx, Px, (Gr []). }
       assert (S1 : st_ok (set_constant st x r)) by (apply st_ok_set_constant; auto).
       destruct (IH _ _ _ _ G0 eq_refl S1 Ha) as (U0 & S0 & A0 & B0 & T0).
       destruct (Hsub r a (or_introl eq_refl) Ha0) as (Gb' & Nb').
       destruct (rw_list_of_spec n IH _ _ _ _ Gb' Nb' T0 Ha1) as (U1 & S1' & A1 & B1 & T1).
       assert (Hsub' : forall r0 b', List.In r0 rs -> mapM (subst_stmt false x r0) b = Ok b' ->
-                                    forallb (gstmt visible plen []) b' = true /\ forallb notup b' = true).
+                                    forallb (gstmt visible plen pbool pint []) b' = true /\ forallb notup b' = true).
       { intros r0 b' Hin. apply Hsub. now right. }
       destruct (IHr _ _ _ _ Er2 F' Hsub' T1 Ha2) as (U2 & S2 & A2 & B2 & T2).
       assert (Us : uq (set_constant st x r) = uq st).
@@ -2498,15 +2838,15 @@ Section RwMain.
     destruct s as [[x|tl] e|x op e|c b o|x it b fo|e|[e|]]; cbn [rw_stmt] in H; cbn [gstmt] in G.
     - (* x = e *)
       apply andb_true_iff in G; destruct G as [Gx Ge]. destruct (okt_inv _ _ Gx) as (Vx & Px).
-      destruct (rw_assign_sound ext _ _ _ _ _ Vx Px Ge H) as (U & Sh & A & B & T).
+      destruct (rw_assign_sound ext _ _ _ _ _ S Vx Px Ge H) as (U & Sh & A & B & T).
       split; [lia|]. split; auto.
     - discriminate.
     - (* x op= e *)
       apply andb_true_iff in G; destruct G as [G Ge]. apply andb_true_iff in G; destruct G as [Gx Gop].
       destruct (okt_inv _ _ Gx) as (Vx & Px).
       inv_bind H. inversion H; subst.
-      assert (G1 : gexp visible [] (EBinOp op (EName x) e) = true) by (simpl; now rewrite Gop, Vx, Ge).
-      destruct (rw_exp_sound ext st' _ _ G1 Ha) as (E & G2).
+      assert (G1 : gexp visible plen pbool pint [] (EBinOp op (EName x) e) = true) by (simpl; now rewrite Gop, Vx, Ge).
+      destruct (rw_exp_sound ext st' _ S _ G1 Ha) as (E & G2).
       split; [apply N.le_refl|]. split; [|split; [|split]]; auto.
       + constructor; [apply tmp_shape|constructor; [apply one_shape; auto|constructor]].
       + exact (tmp_guard x a Px (gexp_mono visible anyn [] a (fun _ _ => eq_refl) G2)).
@@ -2519,7 +2859,8 @@ Section RwMain.
       cbv zeta in H. inv_bind H. inv_bind H. inv_bind H. inversion H; subst. clear H.
       destruct (IHl _ _ _ _ Gb Nb S Ha) as (U1 & S1 & A1 & B1 & T1).
       destruct (IHl _ _ _ _ Go No T1 Ha0) as (U2 & S2 & A2 & B2 & T2).
-      destruct (rw_exp_sound ext _ _ _ Gc Ha1) as (Ec & Gc').
+      assert (Sok3 : st_ok (mkst (tys st2) (cns st2) (uq st2 + 1)%N)) by (apply (st_ok_tys st2); auto).
+      destruct (rw_exp_sound ext _ _ Sok3 _ Gc Ha1) as (Ec & Gc').
       pose proof (wrap_body_WB _ _ _ _ Ha2) as Wb. pose proof (wrap_else_WE _ _ _ _ Ha3) as We.
       set (u := (uq st2 + 1)%N) in *. set (t := iftarg_name u) in *.
       assert (Fb : Forall (fun s => target_of s <> Some t) b') by (apply (shape_fresh _ _ _ _ S1); lia).
@@ -2536,7 +2877,7 @@ Section RwMain.
         unfold t. cbn [gstmt]. rewrite (gexp_mono visible anyn [] a (fun _ _ => eq_refl) Gc').
         unfold okt, anyn. rewrite (iftarg_not_prot u). reflexivity.
       + intros rho rho' out' J R H.
-        rewrite exec_list_cons in H. cbn [M_A2A.exec] in H. rewrite Ec in H.
+        rewrite exec_list_cons in H. cbn [M_A2A.exec] in H. rewrite (Ec _ J) in H.
         rewrite exec_if. rewrite (eval_agree ext visible [] c rho rho' Gc R).
         destruct (eval rho' c) as [vc|]; try discriminate.
         set (rho1 := upd rho' t vc) in *.
@@ -2574,7 +2915,7 @@ Section RwMain.
       pose proof (glist_tgt_ok _ _ _ Gb) as Tb.
       destruct (for_iter_sound _ _ x _ _ _ _ S Px Gi Tb Ha) as (-> & -> & vs & Er & F & Ev & Hsub).
       assert (Hsub' : forall r b', List.In r elems -> mapM (subst_stmt false x r) b = Ok b' ->
-                                   forallb (gstmt visible plen []) b' = true /\ forallb notup b' = true).
+                                   forallb (gstmt visible plen pbool pint []) b' = true /\ forallb notup b' = true).
       { intros r b' Hin Hs. apply (Hsub r b' Hin Nb Gb Hs). }
       destruct (rolls_sound n IHn x b Vx Px Nb Tb elems vs _ _ _ Er F Hsub' S Ha0) as (U1 & S1 & A1 & B1 & T1).
       destruct (IHl _ _ _ _ Go No T1 Ha1) as (U2 & S2 & A2 & B2 & T2).
@@ -2585,14 +2926,14 @@ Section RwMain.
         * intros rho rho' J R. rewrite exec_for, (Ev rho rho' J R). reflexivity.
         * intro rho. simpl app. unfold seq. now rewrite exec_list_app.
     - (* return *)
-      inv_bind H. inversion H; subst. destruct (rw_exp_sound ext st' _ _ G Ha) as (E & G').
+      inv_bind H. inversion H; subst. destruct (rw_exp_sound ext st' _ S _ G Ha) as (E & G').
       split; [apply N.le_refl|]. split; [|split; [|split]]; auto.
       + constructor; [exact I|constructor].
       + simpl. now rewrite (gexp_mono visible anyn [] a (fun _ _ => eq_refl) G').
       + apply bsim_single. apply (bsim_return ext visible []); auto.
     - (* expression statement *)
       rewrite (gexp_not_call _ _ _ "print" G) in H by reflexivity.
-      inv_bind H. inversion H; subst. destruct (rw_exp_sound ext st' _ _ G Ha) as (E & G').
+      inv_bind H. inversion H; subst. destruct (rw_exp_sound ext st' _ S _ G Ha) as (E & G').
       split; [apply N.le_refl|]. split; [|split; [|split]]; auto.
       + constructor; [exact I|constructor].
       + simpl. now rewrite (gexp_mono visible anyn [] a (fun _ _ => eq_refl) G').
@@ -2605,7 +2946,7 @@ Section RwMain.
   Qed.
 
   Lemma rw_list_sound b st l st' :
-    forallb (gstmt visible plen []) b = true -> forallb notup b = true -> st_ok st ->
+    forallb (gstmt visible plen pbool pint []) b = true -> forallb notup b = true -> st_ok st ->
     rw_list rw_fuel st b = Ok (l, st') -> rw_post st l st' (exec_list b).
   Proof. apply (rw_list_of_spec rw_fuel (rw_stmt_sound rw_fuel)). Qed.
 End RwMain.
@@ -2712,7 +3053,7 @@ Qed.
 
 Theorem a2a_normal_form : forall f b', a2a f = Ok b' -> normal_form b' = true.
 Proof.
-  intros f b' H. unfold a2a in H. inv_bind H. inv_bind H. inv_bind H.
+  intros f b' H. unfold a2a in H. destruct (fun_reserved f); [discriminate|]. inv_bind H. inv_bind H. inv_bind H.
   unfold rw_fun in Ha1. inv_bind Ha1. inv_bind Ha1. destruct a3 as [b3 st3]. inv_bind Ha1. inversion Ha1; subst.
   apply (fold_normal _ _ (rw_list_normal_of _ (rw_stmt_normal rw_fuel) _ _ _ _ Ha3) H).
 Qed.
@@ -2747,16 +3088,17 @@ Theorem a2a_backward : forall ext f b',
   forall v, run ext b' rho = Some v -> run ext (f_body f) rho = Some v.
 Proof.
   intros ext f b' G H rho C v R. unfold a2a_guard in G. unfold a2a in H.
-  inv_bind H. inv_bind H. inv_bind H.
+  destruct (fun_reserved f); [discriminate|]. inv_bind H. inv_bind H. inv_bind H.
   unfold rw_fun in Ha1. inv_bind Ha1. inv_bind Ha1. destruct a3 as [b3 st3]. inv_bind Ha1. inversion Ha1; subst.
-  set (plen := plen_of f) in *.
-  destruct (fold_list_sound plen ext user_name [] _ _ G Ha) as (E1 & G1).
-  destruct (multi_list_sound plen (prot_of_user f) rho C ext [] _ _ G1 Ha0) as (G2 & B2).
+  destruct C as [C Cb].
+  set (plen := plen_of f) in *. set (pbool := pbool_of f) in *.
+  destruct (fold_list_sound plen pbool ext user_name [] _ _ G Ha) as (E1 & G1).
+  destruct (multi_list_sound plen (prot_of_user f) rho C pbool ext [] _ _ G1 Ha0) as (G2 & B2).
   pose proof (multi_list_notup _ _ Ha0) as N2.
   assert (S0 : st_ok plen (init_state (f_args f))).
   { intros z n Pa. apply (plen_of_inv _ _ _ Pa). }
-  destruct (rw_list_sound plen (prot_of_user f) rho C ext _ _ _ _ G2 N2 S0 Ha3) as (_ & _ & G3 & B3 & _).
-  destruct (fold_list_sound plen ext anyn [] _ _ G3 H) as (E4 & _).
+  destruct (rw_list_sound plen (prot_of_user f) rho C pbool Cb ext _ _ _ _ G2 N2 S0 Ha3) as (_ & _ & G3 & B3 & _).
+  destruct (fold_list_sound plen pbool ext anyn [] _ _ G3 H) as (E4 & _).
   assert (J0 : Inv plen rho rho) by (intros z _; reflexivity).
   unfold run in *. rewrite E4 in R.
   destruct (exec_list ext a1 rho) as [[r3 [v3|]]|] eqn:X3; try discriminate. inversion R; subst v3.
@@ -2836,12 +3178,11 @@ Lemma wit_loop_agree : agree wit_loop wit_loop_env (VBool false).
 Proof. unfold agree. eexists. repeat split; vm_compute; reflexivity. Qed.
 
 (* ------------------------------------------------------------------ *)
-(* the unguarded statement is STILL false of the faithful model        *)
+(* the witnesses of the second round: repaired in /repo (cbb039f, 31c53a1, e979369) *)
 (* ------------------------------------------------------------------ *)
 (* def f(c: bool, u: Tuple[Qint[2], bool]) -> bool:
        t = (True, False);  if c: t = (False, True);  return t[u[0]]
-   Environment.constants is flow-insensitive and a tuple of CONSTANTS is still inlined: the last
-   tuple assigned anywhere is read, whatever c is *)
+   a named tuple is now always read through the name *)
 Definition wit_constflow : fundef :=
   mkfun [("c", ann_bool); ("u", ann_tuple [ann_qint2; EName "bool"])] ann_bool
         [SAssign (TName "t") (ETuple [EConst (CBool true); EConst (CBool false)]);
@@ -2849,14 +3190,12 @@ Definition wit_constflow : fundef :=
          SReturn (ESubscript (EName "t") (ESubscript (EName "u") (ci 0)))].
 Definition wit_constflow_env : env := env_of [("c", VBool false); ("u", VTup [VInt 0; VBool true])].
 
-(* def f(a: bool, b: bool) -> bool:  _temptup = (a, b);  a, b = b, a;  return _temptup[0]
-   a user variable named like the temporary of ReplaceMultiTargetAssign *)
+(* def f(a: bool, b: bool) -> bool:  _temptup = (a, b);  a, b = b, a;  return _temptup[0] *)
 Definition wit_temptup : fundef :=
   mkfun [("a", ann_bool); ("b", ann_bool)] ann_bool
         [SAssign (TName "_temptup") (ETuple [EName "a"; EName "b"]);
          SAssign (TTuple [EName "a"; EName "b"]) (ETuple [EName "b"; EName "a"]);
          SReturn (ESubscript (EName "_temptup") (ci 0))].
-Definition wit_temptup_env : env := env_of [("a", VBool true); ("b", VBool false)].
 
 (* def f(a, b, c: bool) -> bool:  _iftarg2 = c;  if a: b = not b;  return _iftarg2 *)
 Definition wit_iftarg : fundef :=
@@ -2864,21 +3203,37 @@ Definition wit_iftarg : fundef :=
         [SAssign (TName "_iftarg2") (EName "c");
          SIf (EName "a") [SAssign (TName "b") (EUnOp Not (EName "b"))] [];
          SReturn (EName "_iftarg2")].
-Definition wit_iftarg_env : env := env_of [("a", VBool false); ("b", VBool false); ("c", VBool true)].
 
-Lemma wit_constflow_differ : differ wit_constflow wit_constflow_env.
-Proof. unfold differ. eexists. exists (VBool false), (VBool true). repeat split; vm_compute; reflexivity. Qed.
-Lemma wit_temptup_differ : differ wit_temptup wit_temptup_env.
-Proof. unfold differ. eexists. exists (VBool false), (VBool true). repeat split; vm_compute; reflexivity. Qed.
-Lemma wit_iftarg_differ : differ wit_iftarg wit_iftarg_env.
-Proof. unfold differ. eexists. exists (VBool false), (VBool true). repeat split; vm_compute; reflexivity. Qed.
+Lemma wit_constflow_agree : agree wit_constflow wit_constflow_env (VBool true).
+Proof. unfold agree. eexists. repeat split; vm_compute; reflexivity. Qed.
+(* the reserved names are rejected *)
+Lemma wit_temptup_rejected : a2a wit_temptup = Raise.
+Proof. vm_compute. reflexivity. Qed.
+Lemma wit_iftarg_rejected : a2a wit_iftarg = Raise.
+Proof. vm_compute. reflexivity. Qed.
 
-(* "the rewriter preserves the returned value of every program it accepts" is FALSE *)
+(* whatever the normaliser accepts has no reserved name *)
+Lemma a2a_ok_not_reserved f b' : a2a f = Ok b' -> fun_reserved f = false.
+Proof. unfold a2a. destruct (fun_reserved f); [discriminate|reflexivity]. Qed.
+
+(* ------------------------------------------------------------------ *)
+(* the unguarded statement is false of the model over UNTYPED values   *)
+(* ------------------------------------------------------------------ *)
+(* def f(a: Qlist[Qint[2], 2]) -> bool:  return all(a)      with a = (2, 3)
+   all(a) becomes a[0] and a[1]: 3, where Python's all gives True.  The translator REJECTS this
+   program (the operands of `and` must be bool): it witnesses that the builtin expansions need
+   typed operands, not a defect of an accepted program *)
+Definition wit_all : fundef :=
+  mkfun [("a", ann_tuple [ann_qint2; ann_qint2])] ann_bool [SReturn (ECall "all" [EName "a"])].
+Definition wit_all_env : env := env_of [("a", VTup [VInt 2; VInt 3])].
+Lemma wit_all_differ : differ wit_all wit_all_env.
+Proof. unfold differ. eexists. exists (VInt 3), (VBool true). repeat split; vm_compute; reflexivity. Qed.
+
 Theorem a2a_preserves_refuted :
   exists f rho b' v v', a2a f = Ok b' /\ run no_ext b' rho = Some v /\
                         run no_ext (f_body f) rho = Some v' /\ v <> v'.
 Proof.
-  exists wit_constflow, wit_constflow_env. eexists. exists (VBool false), (VBool true).
+  exists wit_all, wit_all_env. eexists. exists (VInt 3), (VBool true).
   repeat split; try (vm_compute; reflexivity). discriminate.
 Qed.
 
@@ -2904,12 +3259,27 @@ Proof.
   destruct (String.eqb y x) eqn:E; auto. apply String.eqb_eq in E. auto.
 Qed.
 
+Lemma pbool_plen f a : pbool_of f a = true -> exists n, plen_of f a = Some n.
+Proof.
+  unfold pbool_of, plen_of. destruct (assoc (tys (init_state (f_args f))) a) as [[e|]|]; try discriminate.
+  destruct e; try discriminate. destruct e1; try discriminate. destruct e2; try discriminate.
+  intro H. apply andb_true_iff in H. destruct H as [H _]. rewrite H. eauto.
+Qed.
+
 Theorem conforms_check f rho : conforms_b f rho = true -> conforms f rho.
 Proof.
-  unfold conforms_b, conforms. intros H a n Pa.
-  destruct (plen_of_inv _ _ _ Pa) as (_ & l & Hl & _).
-  apply assoc_in in Hl. unfold init_state in Hl. simpl in Hl.
-  rewrite map_rev, map_map in Hl. simpl in Hl. apply in_rev in Hl.
-  rewrite forallb_forall in H. specialize (H a Hl). rewrite Pa in H.
-  destruct (rho a) as [[| |vs]|]; try discriminate. apply Nat.eqb_eq in H. eauto.
+  unfold conforms_b, conforms. intro H.
+  assert (K : forall a n, plen_of f a = Some n ->
+              exists vs, rho a = Some (VTup vs) /\ List.length vs = n /\
+                         (pbool_of f a = true -> forallb is_vbool vs = true)).
+  { intros a n Pa. destruct (plen_of_inv _ _ _ Pa) as (_ & l & Hl & _).
+    apply assoc_in in Hl. unfold init_state in Hl. simpl in Hl.
+    rewrite map_rev, map_map in Hl. simpl in Hl. apply in_rev in Hl.
+    rewrite forallb_forall in H. specialize (H a Hl). rewrite Pa in H.
+    destruct (rho a) as [[| |vs]|]; try discriminate. apply andb_true_iff in H. destruct H as [H1 H2].
+    apply Nat.eqb_eq in H1. exists vs. split; auto. split; auto.
+    intro Pb. rewrite Pb in H2. exact H2. }
+  split.
+  - intros a n Pa. destruct (K a n Pa) as (vs & E & L & _). eauto.
+  - intros a Pb. destruct (pbool_plen _ _ Pb) as (n & Pa). destruct (K a n Pa) as (vs & E & _ & B). eauto.
 Qed.
